@@ -12,1447 +12,2633 @@ Definition show_fres (r : fres) : string :=
   end.
 Definition check (rs : list rune) : string := digest (show_fres (format_res rs)).
 Definition full (rs : list rune) : string := show_fres (format_res rs).
-Eval vm_compute in ("<<<M1573>>>" ++ check (runes_of_ascii "options	{	ArrayPrefixLenType =
-
-u16
-    ;FixedStringPadFromLeft 
-=
-
-true
-;	JavaPackage =  ""com.example.msg""
-	;
-GoPackage =  ""msg"";	GoModule =""example.com/msg"" ;  }	MetaData Meta 
-{u32 SeqNum`sequence number` 
-,	char[ 8 
-]
-	Symbol 
-`symbol`
-
-    ,
-	zchar[	5 ]ZSym `z symbol`,	string
-
-Note ,
-
-    Symbol  AltSymbol
-
-`alias of symbol` ,	f64  Price	,}packet
-	Inner {  u8	a	,
-
-    i16
-
-    b
-, string	c ,
-}
-
-    packet Inner2
-{
-
-u8
-a2
-
-    ,	char[
-    3
-]
-	c2,}
-
-packet 
-Logon
-{ u8 
-x, 
-string
-user ,	repeat
-
-    u16
-	codes,
-}
-	packet
-Logout
-    { u16
-
-    reason
-, }
-
-    packet
-    Empty{
-
-}
-root
-
-packet
-	Msg  {
-
-u8
-    su8,  uint8
-    luint8  , 
-u16
-    su16
+Eval vm_compute in ("<<<M1298>>>" ++ check (runes_of_ascii "packet i8i8 {@lengthOf( // a // b
+string_) // 50% %s
+repeat	As {  char[007] Foo ,match// " ++ [27880; 37322]%N ++ runes_of_ascii "
+charz as u8x{65535 :packetx [//
+1 , 00
+] : falsey
 ,
-	uint16 luint16	,
-    u32
-
-    su32,uint32
-	luint32
-    , u64
-su64
-
-    ,uint64
-	luint64 , 
-i8
-si8
-,
-int8
-lint8
-
-, i16  si16
-
-,
-	int16
-lint16 ,	i32  si32
-
-    ,
-int32
-    lint32,i64
-si64
-
-    ,	int64 
-lint64 , f32
-sf32
-
-    ,
-float32
-    lfloat32
-,
-f64
-	sf64,
-	float64 
-lfloat64
-,
-	char[6
-    ]
-
-fsplain
-,
-@leftPad
-
-( '0' 
-)char[ 4
-
-]
-fs0
-
-    ,@rightPad( '0')char[ 5
-
-    ] 
-fs1
-    ,@leftPad
-
-(' '
-) 
-char[	6
-	]
-    fs2 
-,@rightPad ( ' '
-	)	char[ 7  ]
-    fs3
-,
-
-@leftPad
-
-    (
-'\x00' )
-	char[
-
-    8]
-fs4, @rightPad (
-'\x00'
-)
-
-char[
-9
-]
-
-fs5,	@leftPad (
-    )char[
-	10] fs6
-    , 
-@rightPad
-(
-	) char[ 11 ]	fs7,
-zchar[7 ]  fz  , 
-@leftPad  ( '0'
-) zchar[
-
-    3  ]  fzl0,string
-	s1
-    `doc`
-
-,char[]
-s2
-, Inner
-
-,
-
-    Sub { u8  q, string 
-w , Deep
-    {u16	z
-	,
-
-    repeat
-i32 
-zs
-
-    ,} 
-,
-    } , repeat	u8	ru8,
-
-repeat 
-u16
-ru16,
-    repeat 
-u32
-
-ru32
-	,repeat
-
-    u64
-
-    ru64
-
-    , repeat
-
-i8	ri8
-,
-
-repeat i16	ri16 , 
-repeat  i32
-
-ri32
-    ,
-
-    repeat
-i64 
-ri64 ,  repeat
-f32
-	rf32,
-repeat
-
-f64 rf64
-
-,
-
-repeat
-string
-
-rstr ,
-
-    repeat char[]
-
-rstr2
-,
-repeat
-	char[	3
-
-    ] rfs
-    ,
-    repeat
-zchar[ 3
-
-    ]
-    rfz ,repeat  Inner2
-
-,repeat	Grp
-{
-    u8 k
-
-,
-char[ 2	]v  ,
-
-} ,	SeqNum
-
-,	SeqNum
-	seq2
-,
-
-    repeat	SeqNum 
-seqs ,
-    Symbol,
-
-    AltSymbol
-alt	,
-	ZSym	, 
-Note,
-repeat
-
-    Symbol
-    syms
-    ,
-
-    Price 
-px
-
-,
-
-    u16
-MsgType
-
-, u32  BodyLen 
-@lengthOf( Body)
-
-    ,
-    match
-
-    MsgType
-
-    as
-
-Body
-{	1 :	Logon  , 
-[
-
-2
-    , 3
-
-    ]
-:Logout
-	,7
-
-    : Logon	,
-9 : Empty 
-,
-	}
-    ,
-    u32 Checksum@calculatedFrom( ""CRC32""
-
-    ) , 
-}
-")).
-Eval vm_compute in ("<<<M2094>>>" ++ check (runes_of_ascii "packet  uint8x  {
-match
-Pad
-as  // " ++ [128512]%N ++ runes_of_ascii " emoji
-    repeatCount {	[
-
-    0
-
-    ]
-: lengthOf , [  ""// no comment""  ]
-
-:metadata,
-},metadata  
-  // trailing space 
-	//
-,
-
-    zchar[/// triple
-1] 
-trueish	//	t
-	, 
-@calculatedFrom(
-
-""a\""b""
-)
-
-match //x
-    roots
-as
-
-f32a
-{ 4294967296
-: i64_
-
-,
-	""it's"" : a1
-
-,[  
-      // trailing space 
-    00,
-
-0123456789 ]
-
-:
-    As, 255  : Packet,""{,}""
-	: T 	 /// triple
-    0 
-: falsey
-}
-    ,	body 
-@calculatedFrom(  ""\n"" 
-    // trailing space 
-      )
-
-    ,	@calculatedFrom(
-	""" ++ [128512]%N ++ runes_of_ascii """ )
-    @tag(  10 ) char[10 ]
-    trueish
-`doc`,  @tag( 255
-
-    )
-repeat  Z9_ 
-{
-    asx
-	chars
-
-    `// not a comment`  ,	} ,
-	@lengthOf(Packet  ) u16 crc
-
-, }  
-  // `tick` ""quote"" 'q'
-      options	{  BodyLength
-
-    =
-
-    i32	;	x	// " ++ [128512]%N ++ runes_of_ascii " emoji
-
-=  255 ;u
-
-    =
-
-    3	}options{
-    } packet  calculatedFrom  {}
-//x
-	root
-
-packet
-
-    Header { Pad
-{
-    repeatCount 
-,
-uint16 zchar, match
-
-msg_type
-
-    as  pack 
-
-/// triple
-{
-""abc"" :
-	repeatCount, 
-""{,}""	:
-    repeatCount ""a	b"" :
-calculatedFrom
-	}	, repeat string
-    Logon 
-`a\` ,	}	, @lengthOf(
-
-x_y_z
-)
-
-match  tag	as	repeatCount
-
-{
-
-    007 :BodyLength  , 
-[
-    //	t
-    """ ++ [28040; 24687]%N ++ runes_of_ascii """ ]
-
-:
-BodyLength
-
-    42
-:
-
-string_ ""// no comment"" 
-    // trailing space 
-		/// triple
-  	:	//
-
-Z9_  , 4294967296 :
-	// " ++ [128512]%N ++ runes_of_ascii " emoji
-_x
-	}, f64 u
-`it's` , zchar[
-    00 
-] f32a`doc`  ,
-	match
-    i64_ as
-	Logon
-    {
-
-    4294967296// a // b
-	: metadata
-    ,	},
-	char[1
-    ] Pad
-	,zchar[
-    0123456789
-
-    ] float  // @lengthOf(
-	``	,
-}
-
-")).
-Eval vm_compute in ("<<<M1536>>>" ++ check (runes_of_ascii "options {
-    StringPrefixLenType = u16;
-    ArrayPrefixLenType = u8;
-    FixedStringPadFromLeft = true;
-    FixedStringPadChar = ' ';
-}
-packet Quote {
-    int64 OrderId,
-    char[] Ref,
-    @leftPad('0') char[5] price,
-}
-packet Heartbeat {
-    zchar[3] venue,
-    string Flags,
-}
-packet Trade {
-    repeat InTag787 {
-        i32 venue,
-        char[5] sym,
-        repeat InPx98 {
-            char[11] Qty,
-            Heartbeat,
-            char[] price,
-            u32 x,
-            float64 count,
-            repeat Quote,
-        },
-        zchar[7] Note,
-        repeat char[1] Tail,
-    },
-    repeat char[2] seqNo,
-    InTail55 {
-        repeat Quote,
-        string msgKind,
-        InPx18 {
-            char[] count,
-            repeat Quote,
-            uint16 Qty,
-        },
-        char[4] seqNo,
-        repeat Heartbeat,
-        repeat string sym,
-    },
-    repeat Quote,
-    Heartbeat,
-    @leftPad(' ') char[10] OrderId,
-}
-root packet Fill {
-    Heartbeat,
-    uint32 count,
-    u8 OrderId,
-    match OrderId as Body {
-        96 : Quote,
-        195 : Trade,
-        187 : Heartbeat,
-    },
-    u32 venue @calculatedFrom(""CR\
-C32""),
-}
-")).
-Eval vm_compute in ("<<<M2111>>>" ++ check (runes_of_ascii "
-packet Pad  // " ++ [27880; 37322]%N ++ runes_of_ascii "
-	{
-@tag(65535
-	) repeat
-	char[
-//	t
-
-4294967296] 
-o `u8 x,` 
-,@calculatedFrom(
-
-    ""x y"")
-	metadata  // c
-
-  @lengthOf(	repeatCount
-
-    ) 
-`tab	here`  , 
-}packet
-u128
-	{
-    // packet A { u8 x, }
-  // " ++ [128512]%N ++ runes_of_ascii " emoji
-    	repeat 	 // " ++ [128512]%N ++ runes_of_ascii " emoji
-  zchar[
-
-10
-	] _x  // " ++ [27880; 37322]%N ++ runes_of_ascii "
-
-, 	 /// triple
-
-	} 
-options
-
-    {  /// triple
-      msg_type = true	;
-}
-	packet
-
-tag
-
-    {	// c
-		@tag(  7
-)i32
-
-f32a	@lengthOf(  u8x 
-)
-    `two words` , string 
-Foo  @lengthOf(
-Foo
-    ),	@rightPad
-	( '0'	)
-match As as
-
-// @lengthOf(
-// `tick` ""quote"" 'q'
-    	crc	// a // b
-  {
-	"""" :float
-, //	t
-    	},	repeat	i16
-	i8i8
-    ,
-	@rightPad  /// triple
-    ('0'	)  repeat 
-u128 {
-
-i64
-tag @calculatedFrom(
-
-""" ++ [28040; 24687]%N ++ runes_of_ascii """
-) ,  i8i8
-@calculatedFrom(  // " ++ [27880; 37322]%N ++ runes_of_ascii "
-
-""{,}""  )
-`it's`	,
-repeat  string 
-rootA	/// triple
-	, 
-}  ,
-repeat	string
-	chars
-
-    ,
-asx
-,match
-calculatedFrom
-as calculatedFrom
-{ ""a\""b"": 
-Logon 
-""a	b""
-    :
-
-    asx
-
-    },
-char zchar
-	@calculatedFrom(
-""1"" 
-) `say ""hi""`,} ")).
-Eval vm_compute in ("<<<M8>>>" ++ check (runes_of_ascii "packet leftPad
-    { @tag( 3 )
-    @tag( // trailing space 
-255 ) @tag( 7 ) Packet @calculatedFrom(
-    ""\n"" )
-    ,
-    @calculatedFrom(
-//x
-/// triple
-""abc""
-)
-    repeat
-    f32a
-    trueish `// not a comment` ,
-    match
-    /// triple
-    calculatedFrom
-as stringy { [	1
-,
-    // @lengthOf(
-    65535 ] :
-    u  ,}
-// `tick` ""quote"" 'q'
-/// triple
-, zchar[ 10 ] o `` , @lengthOf(calculatedFrom
-)
-char x_y_z ,char[] BodyLength ,stringy o
-`line1
-line2` ,
-@tag( 00 )options1  {// @lengthOf(
-float32 asx
-@lengthOf( roots ) ,
-// " ++ [128512]%N ++ runes_of_ascii " emoji
-// `tick` ""quote"" 'q'
-match Z9_
-as
-int
-    {""{,}""
-: A [ // " ++ [27880; 37322]%N ++ runes_of_ascii "
-""a\""b""  ,
-""it's""
-    ] :	repeatCount ,1 :
-    float , ""a\\"": zchar// `tick` ""quote"" 'q'
-[0 , ""abc"" ,0,  00,
-0
-    ,
-""" ++ [128512]%N ++ runes_of_ascii """ ]: T
-, 0123456789	: As , }
-    , }, @lengthOf(
-    msg_type ) i8
-matchKey , repeat
-len len `a\`
-,	}")).
-Eval vm_compute in ("<<<M1952>>>" ++ check (runes_of_ascii "  root
-packet
-	o{a1 a1,
-	char[
-
-3
-    ] i8i8
-
-    `
-` ,  @calculatedFrom(  ""a\""b"" )  // packet A { u8 x, }
-    repeat 	 /// triple
-Pad, } 
-// `tick` ""quote"" 'q'
-  // `tick` ""quote"" 'q'
-
-packet
-	tag  {
-
-    i8i8@calculatedFrom(""x y""  )	`it's`
-
-    ,
-	@lengthOf(x_y_z )	@calculatedFrom(  
-  //
-
-  //	t
-
-	""a\""b""	)
-
-u 
-{ match a1
-as Logon
-
-{
-""\n""  : Pad
-
-    ,3
-:  body
-
-    ,  """"  : // `tick` ""quote"" 'q'
-Logon
-, ""\n""	:
-	T
-    , ""`tick`"" : tag
-	,
-
-    [
-    """ ++ [233]%N ++ runes_of_ascii "t" ++ [233]%N ++ runes_of_ascii """ /// triple
-	,
-7
-
-, 
-""a\""b""	, 0123456789
-,""abc""
-, """ ++ [28040; 24687]%N ++ runes_of_ascii """
-    ,
-	0] 
-:
-    Z9_
-
-} ,
-
-char[00
-]//
-	string_
-
-@lengthOf(	asx
-    ) 
-,  char[
-1
-    ]	falsey
-
-, }
-	, match	crc as
-
-lengthOf
-{
-
-    4294967296
-
-    :
-a1	}	, 
-}")).
-Eval vm_compute in ("<<<M106>>>" ++ check (runes_of_ascii "packet  matchKey
-{
-    } options{ int = ""a\\""
-; lengthOf //	t
-= ""it's"" } MetaData lengthOf { Pad  tag
-    , } root packet
-    x {int @lengthOf(	pack )
-`a\` //
-, string matchKey
-@lengthOf( chars
-    )  `" ++ [233]%N ++ runes_of_ascii "` , repeat repeatCount
-//x
-//
-{
-    // packet A { u8 x, }
-    match x_y_z as A
-    {""1"": o	,
-// packet A { u8 x, }
-// `tick` ""quote"" 'q'
-7 :uint8x
-// `tick` ""quote"" 'q'
-//	t
-, [
-// `tick` ""quote"" 'q'
-// " ++ [128512]%N ++ runes_of_ascii " emoji
-65535 , """"
-] ://
-Header """ ++ [233]%N ++ runes_of_ascii "t" ++ [233]%N ++ runes_of_ascii """ :  u8x
-    """ ++ [28040; 24687]%N ++ runes_of_ascii """ : charz 65535 :
-stringy }// " ++ [128512]%N ++ runes_of_ascii " emoji
-,	zchar[007]	uint8x ,f32 repeatCount @lengthOf( // c
-float) `two words` , f64 A  `u8 x,`	,
-}, }
-    packet Header{ }
-")).
-Eval vm_compute in ("<<<M84>>>" ++ check (runes_of_ascii "MetaData rootA
-    {}
-options{ rootA= '\x00' zchar
-    ='0' rootA= float64 ;  trueish	= 3 i64_
-= float64 ; } options{
-    body
-= '0'
-    ;T= ""CRC32"";matchKey = char[] ; }	packet
-rootA {
-    // " ++ [128512]%N ++ runes_of_ascii " emoji
-    @lengthOf( //
-Z9_)
-    @rightPad('0' ) Packet calculatedFrom , }packet
-body
-    { match metadata
-as asx {
-    3 : Header 3: packetx	, [  10]
-:	Packet, """"
+[ ""a\\""]
+    : a1 }	,
+}, @tag(
+    65535	)// c
+repeat Pad {u
+Packet , } , //
+repeat trueish`100% of %d`,
+    float32 o @lengthOf( T
 // " ++ [27880; 37322]%N ++ runes_of_ascii "
-// @lengthOf(
-: pack
-,
-10  :
-    // packet A { u8 x, }
-    pack [  255 // `tick` ""quote"" 'q'
-, // `tick` ""quote"" 'q'
-""""
-    , 00 // a // b
-,""it's""] :
-x } ,
-}
-
-")).
-Eval vm_compute in ("<<<M246>>>" ++ check (runes_of_ascii "packet // c
-Z9_ {
-As
-    x
-, @rightPad ( ' ') @lengthOf( Header) @rightPad(  ' '
-)match u as  string_{ ""a	b""
-    : Pad
-    // trailing space 
-    ,1: T , [ """" , 255, ""abc""
-, 7
-    //	t
-    ] :
-BodyLength ,  },match falsey
-as  metadata{ 42: float ,
-    // `tick` ""quote"" 'q'
-    } , match lengthOf
-as As {1
-:
-As, [	"""" ,	""a\\"" ,
-""{,}"" , ""it's"" ,
-    //
-    42,""a\\"" , 0 // trailing space 
-, 3  ]  : f32a, } , // packet A { u8 x, }
-repeat float64 roots ,	}
-")).
-Eval vm_compute in ("<<<M78>>>" ++ check (runes_of_ascii "packet stringy
-{  @calculatedFrom(""a	b""
-)uint8x,}
-// @lengthOf(
-// @lengthOf(
-root packet  i8i8
-{ @lengthOf( options1
-) @tag( 0 )
-    repeat
-metadata _x `" ++ [233]%N ++ runes_of_ascii "`	, repeat
-i8i8`
-` // a // b
-,
-repeat  char[ //x
-3 ]o , // " ++ [128512]%N ++ runes_of_ascii " emoji
-@calculatedFrom(""a	b""
-) repeat
-    u16 x `doc`
-,string_
-`tab	here`  , @calculatedFrom(
-    """ ++ [233]%N ++ runes_of_ascii "t" ++ [233]%N ++ runes_of_ascii """)@tag(	4294967296)
-repeat Logon stringy , } root
-    packet
-    tag { }")).
-Eval vm_compute in ("<<<M368>>>" ++ check (runes_of_ascii "packet f32a{
+// " ++ [27880; 37322]%N ++ runes_of_ascii "
+),match chars
+as pack { 00 :
+    u8x ,
+    """ ++ [128512]%N ++ runes_of_ascii """:
     /// triple
-    @calculatedFrom( """" ) matchKey	@lengthOf(
-Packet	) `// not a comment` , match msg_type
+    As, 255 :Pad
+,[007 ] :
+i64_,//	t
+[ ""`tick`""
+// `tick` ""quote"" 'q'
+// `tick` ""quote"" 'q'
+]
+:// " ++ [27880; 37322]%N ++ runes_of_ascii "
+x 255	:
+A , }
+, match msg_type // packet A { u8 x, }
+as a1
+{ [
+0123456789// `tick` ""quote"" 'q'
+]:
+zchar ,
+    [1
+, ""{,}""
+]
+    :
+    float ,
+42: pack
+, [ // " ++ [128512]%N ++ runes_of_ascii " emoji
+""" ++ [28040; 24687]%N ++ runes_of_ascii """ , 4294967296
+]
+: Packet ,}  ,@tag( 1
+)
+Logon {repeat char[  00 // `tick` ""quote"" 'q'
+] falsey
+    ,
+string packetx `a\` ,uint8x	@calculatedFrom( ""\n"" ) ,falsey ,
+    }, @calculatedFrom(
+/// triple
+// `tick` ""quote"" 'q'
+""it's""
+) repeat char[255
+    ] calculatedFrom `100% of %d`, } root // trailing space 
+packet rootA// " ++ [27880; 37322]%N ++ runes_of_ascii "
+{
+} MetaData zchar { u8x _x
+, char[]  roots, packetx
+    u128 ,  metadata BodyLength , } packet
+calculatedFrom
+    {@rightPad
+(
+) stringy	@lengthOf(  calculatedFrom ) `a\`/// triple
+,
+match T as
+    metadata {
+    // packet A { u8 x, }
+    4294967296 :  i64_ // `tick` ""quote"" 'q'
+65535
+: float// a // b
+, [ ""abc"" ,	""1"" ,""{,}""
+    ,
+3 ,
+10// " ++ [27880; 37322]%N ++ runes_of_ascii "
+,3
+    ,  0
+] : i64_[ """ ++ [233]%N ++ runes_of_ascii "t" ++ [233]%N ++ runes_of_ascii """ ,
+    ""it's""
+, 0123456789 ,
+""CRC32"",  ""x y""
+, """"
+]
+    :
+    Packet, 1
+// c
+// " ++ [128512]%N ++ runes_of_ascii " emoji
+: u
+    , }, u16
+// a // b
+// @lengthOf(
+Header@lengthOf( metadata )  ,@leftPad ( ) string_ @lengthOf(  msg_type ) ,
+@rightPad( ' ')
+// trailing space 
+/// triple
+repeat
+Pad{
+options1
+@calculatedFrom(""a\""b"" ) , leftPad  crc `tab	here`,},
+// a // b
+// 50% %s
+@leftPad
+( ' '
+    ) @tag( 0 ) @tag(
+65535
+) char[ 3 // a // b
+] repeatCount//	t
+,
+@lengthOf( Header ) @calculatedFrom(
+    ""a\\"" ) match int as i64_ {
+    ""1"":	metadata , } ,	repeat Z9_ {
+    a1
+`say ""hi""`,	int32
+    x_y_z
+// " ++ [128512]%N ++ runes_of_ascii " emoji
+// 50% %s
+, repeat i8i8, repeat char pack `a\` //
+,} , match
+    x as
+calculatedFrom	{ [ """ ++ [28040; 24687]%N ++ runes_of_ascii """,""`tick`"" , ""a	b"" ,  7
+, 0 ] : chars ,3 : T,
+    //
+    [ 65535
+// 50% %s
+//	t
+,
+    4294967296
+] :matchKey , } ,} options { Packet =
+// " ++ [128512]%N ++ runes_of_ascii " emoji
+// trailing space 
+' ';/// triple
+u
+    // @lengthOf(
+    = u64
+// packet A { u8 x, }
+// @lengthOf(
+u
+    = ' '
+x
+= 7
+}
+")).
+Eval vm_compute in ("<<<M1173>>>" ++ check (runes_of_ascii "packet MetaDataX { @lengthOf( chars ) zchar[  10
+] int  , i8i8
+@calculatedFrom(""\" ++ [233]%N ++ runes_of_ascii """ ) ,@rightPad
+( '\x00' )repeat char[ 4294967296
+    ] falsey
+    //
+    `doc`, } packet	msg_type {
+// `tick` ""quote"" 'q'
+//x
+}root packet
 //	t
 // c
-as lengthOf {"""":Z9_ ,
-    ""`tick`""
-    : crc , // " ++ [27880; 37322]%N ++ runes_of_ascii "
-[ //
-""\n"" ]: T	,
-    ""x y""
-    :
-    // " ++ [128512]%N ++ runes_of_ascii " emoji
-    _x
-    ,// @lengthOf(
-[  ""a\""b"" //
-] :  u128 }
-,zchar[ 7 ]
+trueish {	zchar
+`" ++ [233]%N ++ runes_of_ascii "` // @lengthOf(
+,@lengthOf( msg_type
+) match Logon as zchar {[
+""" ++ [233]%N ++ runes_of_ascii "t" ++ [233]%N ++ runes_of_ascii """ ] : options1 ,
+    }
+, u32  Logon, uint16 chars `line1
+line2`
+    , A @calculatedFrom(""a\\""//x
+) , // @lengthOf(
+@leftPad ()
+@tag(
+//	t
 // trailing space 
-// a // b
-_x
-,repeat len MetaDataX ,}
-")).
-Eval vm_compute in ("<<<M1660>>>" ++ check (runes_of_ascii "packet i8i8 {
-    zchar[10] a1,
+00
+)
+repeat char[]
+trueish ,
+} root packet metadata
+{ lengthOf `` , @calculatedFrom(
+    ""\" ++ [233]%N ++ runes_of_ascii """ ) As o , repeat crc, @leftPad ( '\x00'
+) MetaDataX { match chars
+as
+    _x {
+00 :
+    Pad [
+    ""it's""// @lengthOf(
+]
+    : Logon// @lengthOf(
+,
+255 : x [ """ ++ [28040; 24687]%N ++ runes_of_ascii """ , 0
+    ,  007 , """ ++ [128512]%N ++ runes_of_ascii """ ]:metadata	[""" ++ [28040; 24687]%N ++ runes_of_ascii """, ""`tick`"" ,
+""" ++ [233]%N ++ runes_of_ascii "t" ++ [233]%N ++ runes_of_ascii """ , 10 , // " ++ [27880; 37322]%N ++ runes_of_ascii "
+10 ] :
+T , } // a // b
+,BodyLength @calculatedFrom(
+""// no comment"" )  , tag { charz packetx`{ , }`,
+match x
+    as
+    repeatCount { ""\" ++ [233]%N ++ runes_of_ascii """
+    :
+matchKey , ""it's"" : string_ // `tick` ""quote"" 'q'
+,
+""it's"" : Logon
+    ,
+    [
+""// no comment"" ,
+""" ++ [128512]%N ++ runes_of_ascii """ , 7
+]: pack , [ 1, """" ]	:
+MetaDataX	,  3 :
+Z9_ // " ++ [128512]%N ++ runes_of_ascii " emoji
 }
-
-packet x_y_z {
+,int8 trueish @calculatedFrom( ""\" ++ [233]%N ++ runes_of_ascii """
+)
+    `" ++ [28040; 24687; 31867; 22411]%N ++ runes_of_ascii "`
+    ,
+    } ,} , char[]
+    // trailing space 
+    pack
+, int64 len ,_x @lengthOf( trueish ) /// triple
+`// not a comment`,zchar
+    @calculatedFrom(
+""{,}"" ) , } root packet charz {int8
+    body`// not a comment`
+    // a // b
+    , @lengthOf(//	t
+metadata) @calculatedFrom(	""it's"" ) @calculatedFrom( ""1""
+    )int32 Foo  @lengthOf(string_  )
+    //x
+    ,
+// 50% %s
+//x
+@tag(
+0 )
+char[]
+x_y_z, // a // b
+char trueish @lengthOf( chars
+) , x_y_z @lengthOf( options1 ) `// not a comment` ,
+@lengthOf( charz )// `tick` ""quote"" 'q'
+f32 a1@lengthOf( MetaDataX ) `// not a comment`// " ++ [27880; 37322]%N ++ runes_of_ascii "
+, string_ , @lengthOf(
+    // a // b
+    body
+    ) @tag(65535 ) @calculatedFrom( ""// no comment"")
+    T x_y_z, string Z9_`" ++ [233]%N ++ runes_of_ascii "` // " ++ [128512]%N ++ runes_of_ascii " emoji
+,}
+")).
+Eval vm_compute in ("<<<M720>>>" ++ check (runes_of_ascii "packet falsey{ u16 // " ++ [128512]%N ++ runes_of_ascii " emoji
+float
+// trailing space 
+//x
+, string body@lengthOf( stringy
+    ) `u8 x,` ,// " ++ [27880; 37322]%N ++ runes_of_ascii "
+@calculatedFrom( ""a\""b""
+//
+//
+)	MetaDataX @calculatedFrom( ""CRC32"" ) `it's` , @rightPad ( '0'
+) @leftPad ( '0' )@lengthOf( Foo )i8i8  calculatedFrom , //
+}
+    //	t
+    options
+{  x_y_z
     //
-    // c
+    = '0'	; } packet string_ { @rightPad
+(
+'0' )
+    repeat i8 // 50% %s
+leftPad ,leftPad roots , zchar[ 7 //
+] charz @calculatedFrom( ""1"" ) ,
+match
+Header as	leftPad { 10 :
+    falsey ,
+4294967296  : stringy 3: o[ 7 ,
+4294967296 , 007 , ""`tick`"" , 0123456789// 50% %s
+, 0123456789
+/// triple
+//x
+,""1""
+,""a\""b""
+] : rootA // " ++ [128512]%N ++ runes_of_ascii " emoji
+,""a\""b"" : MetaDataX
+    , },	int16 u8x
+@calculatedFrom(	""" ++ [233]%N ++ runes_of_ascii "t" ++ [233]%N ++ runes_of_ascii """ ) ,
+char
+//x
+// " ++ [27880; 37322]%N ++ runes_of_ascii "
+leftPad , zchar[
+0123456789
+] Packet  @calculatedFrom(	""\" ++ [233]%N ++ runes_of_ascii """) , f32a x	, // a // b
+string i8i8  @lengthOf( len
+    ) ,
+    } MetaData // " ++ [128512]%N ++ runes_of_ascii " emoji
+msg_type { len trueish, i16 msg_type`it's`, char[] falsey`` ,
+    // trailing space 
+    string
+tag , }	packet trueish  { int32 Packet@lengthOf(
+    chars ) `doc` , i8i8 { repeat //
+packetx uint8x
+    ,repeat uint64// 50% %s
+Header `say ""hi""`, } , @calculatedFrom( ""packet""
+) tag
+    // 50% %s
+    ,
+    @lengthOf( rootA  )
+@lengthOf(
+trueish ) match	trueish
+as options1 { 42
+    : matchKey  ,} , i64 u8x
+    ,@rightPad// packet A { u8 x, }
+(
+' ' ) char[	3 ] MetaDataX
+@calculatedFrom(""" ++ [28040; 24687]%N ++ runes_of_ascii """ )
+    , @lengthOf( len	)@tag( 10 )char[] As @lengthOf( Header
+)
+    // @lengthOf(
+    `` ,@tag( 42	) Logon { repeat u32 a1, stringy @calculatedFrom(""" ++ [233]%N ++ runes_of_ascii "t" ++ [233]%N ++ runes_of_ascii """	) ,
+repeat len, }
+//x
+// @lengthOf(
+,
+    u128 // trailing space 
+u128  , }")).
+Eval vm_compute in ("<<<M4365>>>" ++ check (runes_of_ascii "root packet string_ {
+    repeat uint16 Logon `
+        `,
+    @calculatedFrom(""" ++ [233]%N ++ runes_of_ascii "t" ++ [233]%N ++ runes_of_ascii """)
+    char[255] Logon,
+    u64 pack @calculatedFrom(""a\\""),
+    @rightPad('0')
+    T {
+        zchar[3] u8x @calculatedFrom(""CRC32"") `crlf
+                line`,
+        o {
+            _x {
+                float32 calculatedFrom,
+            },
+            repeat int64 u128,
+            float32 string_ @lengthOf(msg_type) `" ++ [233]%N ++ runes_of_ascii "`,
+        },
+    },
+    i16 charz `line1
+        line2`,
+    repeat int64 a1,
+    @lengthOf(lengthOf)
+    // " ++ [27880; 37322]%N ++ runes_of_ascii "
+    @tag(00)
+    Header body `" ++ [28040; 24687; 31867; 22411]%N ++ runes_of_ascii "`,
+    @tag(65535)
+    match pack as _x {
+        ""abc"" : charz,
+        255 : T,
+        [""1"", 007] : rootA,
+        00 : i64_,
+    },
+    char[] a1 `" ++ [233]%N ++ runes_of_ascii "`,
+    matchKey {
+        zchar[3] Pad `// not a comment`,
+    },
 }
 
 options {
-    matchKey = false;
-    Foo = i32;
-    MetaDataX = 007
-    pack = """ ++ [28040; 24687]%N ++ runes_of_ascii """;
+    packetx = ' '
+    A = 0123456789;
+    string_ = '\x00';
+    float = ""a\""b"";
+    tag = 65535
 }
 
-packet leftPad {
-}
-
-root packet stringy {
-    /// triple
-    rootA Pad,
-    falsey @calculatedFrom(""it's"") `two words`,
-    u8x float,
-    int64 u8x,
-}//x")).
-Eval vm_compute in ("<<<M1982>>>" ++ check (runes_of_ascii "
-
-  // top
-	packet // c0a
-    	// c0b
-	Inner // c1
-    { // c2
-    u8 
-a// c4a
-		// c4b
-
-  ,  // c5a
-  	// c5b
-  }root 	 // c7a
-// c7b
-	packet 
-	    // c8
-P 
-      // c9
-      {  repeat
-
-Inner
-    items  // c13a
-  	// c13b
-    	, // c14
-    	u8  x 
-// c16
-
-, 	 // c17
-  }
-
-")).
-Eval vm_compute in ("<<<M516>>>" ++ check (runes_of_ascii "root packet tag { }  packet MetaDataX""" ++ [233]%N ++ runes_of_ascii "t" ++ [233]%N ++ runes_of_ascii """char[007	]
-// c
-/// triple
-asx  @calculatedFrom( ""a\""b""
-) `say ""hi""`// " ++ [27880; 37322]%N ++ runes_of_ascii "
-,  @tag(4294967296 )
-    char[1//x
-] packetx @calculatedFrom(""a\""b""
-    ) ,
-// " ++ [128512]%N ++ runes_of_ascii " emoji
-// a // b
-@calculatedFrom(""" ++ [233]%N ++ runes_of_ascii "t" ++ [233]%N ++ runes_of_ascii """  ) repeat pack // " ++ [27880; 37322]%N ++ runes_of_ascii "
-,
-    } // c")).
-Eval vm_compute in ("<<<M1220>>>" ++ check (runes_of_ascii "// top
-root // c0
-packet // c1a
-  // c1b
-matchKey // c2
-{
-    // c3
-zchar[ 3 // c5
-]
-    // c6
-pack @calculatedFrom( // c8
-""a	b"" // c9a
-  // c9b
-) // c10
-`doc` // c11
-, } options
-    // c14
-{ } // c16
-MetaData A { // c19a
-  // c19b
-int8 // c20
-msg_type ,
-    // c22
-} ")).
-Eval vm_compute in ("<<<M513>>>" ++ check (runes_of_ascii "root packet tag { }  packet MetaDataX char[007	]
-// c
-/// triple
-asx  @calculatedFrom( ""a\""b""
-) `say ""hi""`// " ++ [27880; 37322]%N ++ runes_of_ascii "
-,  @tag(4294967296 )
-    char[1//x
-] packetx @calculatedFrom(""a\""b""
-    ) ,
-// " ++ [128512]%N ++ runes_of_ascii " emoji
-// a // b
-@calculatedFrom(""" ++ [233]%N ++ runes_of_ascii "t" ++ [233]%N ++ runes_of_ascii """  ) repeat pack // " ++ [27880; 37322]%N ++ runes_of_ascii "
-,
-    } // c")).
-Eval vm_compute in ("<<<M558>>>" ++ check (runes_of_ascii "root packet tag { }  packet MetaDataX{char[007	]
-// c
-/// triple
-asx  @calculatedFrom( ""a\""b""
-) `say ""hi""`// " ++ [27880; 37322]%N ++ runes_of_ascii "
-  @tag(4294967296 )
-    char[1//x
-] packetx @calculatedFrom(""a\""b""
-    ) ,
-// " ++ [128512]%N ++ runes_of_ascii " emoji
-// a // b
-@calculatedFrom(""" ++ [233]%N ++ runes_of_ascii "t" ++ [233]%N ++ runes_of_ascii """  ) repeat pack // " ++ [27880; 37322]%N ++ runes_of_ascii "
-,
-    } // c")).
-Eval vm_compute in ("<<<M518>>>" ++ check (runes_of_ascii "root packet tag { }  packet MetaDataX{007	]
-// c
-/// triple
-asx  @calculatedFrom( ""a\""b""
-) `say ""hi""`// " ++ [27880; 37322]%N ++ runes_of_ascii "
-,  @tag(4294967296 )
-    char[1//x
-] packetx @calculatedFrom(""a\""b""
-    ) ,
-// " ++ [128512]%N ++ runes_of_ascii " emoji
-// a // b
-@calculatedFrom(""" ++ [233]%N ++ runes_of_ascii "t" ++ [233]%N ++ runes_of_ascii """  ) repeat pack // " ++ [27880; 37322]%N ++ runes_of_ascii "
-,
-    } // c")).
-Eval vm_compute in ("<<<M280>>>" ++ check (runes_of_ascii "
-options
-{charz =""x y"" calculatedFrom =	'0'	} packet msg_type {msg_type asx, string// packet A { u8 x, }
-packetx ,MetaDataX,
-Header { i64 packetx`tab	here`
-,  }, } options { // @lengthOf(
-uint8x = 0 x_y_z =	""x y""
-// packet A { u8 x, }
-//	t
-; }")).
-Eval vm_compute in ("<<<M1498>>>" ++ check (runes_of_ascii "// top
-packet // c0a
-  // c0b
-order_item
-    // c1
-{ u8 // c3a
-  // c3b
-a ,
-    // c5
-} // c6a
-  // c6b
-root
-    // c7
-packet // c8a
-  // c8b
-new_order // c9a
-  // c9b
-{ order_item
-    // c11
-,
-    // c12
-u8 x // c14
-, } ")).
-Eval vm_compute in ("<<<M1872>>>" ++ check (runes_of_ascii "packet 
-    // `tick` ""quote"" 'q'
-  	crc 
-    // packet A { u8 x, }
-
-  //	t
-    {
-u32	a1
-, 
-	    // trailing space 
-
-float32 charz  //
-    `two words`
-, }MetaData
-
-    int
-
-    { }/// triple
-")).
-Eval vm_compute in ("<<<M1476>>>" ++ check (runes_of_ascii "// top
-root
-    // c0
-packet // c1a
-  // c1b
-P { // c3
-u16 // c4
-a ,
-    // c6
-u32 Sum // c8
-@calculatedFrom( // c9a
-  // c9b
-""CRC32"" // c10
-) // c11a
-  // c11b
-, // c12
-}
-    // c13
-")).
-Eval vm_compute in ("<<<M713>>>" ++ check (runes_of_ascii "root packet len len // trailing space 
-{
-// " ++ [27880; 37322]%N ++ runes_of_ascii "
-//	t
-char[10
-] metadata	@lengthOf( o ) `crlf
-line`,
-    @rightPad
-( ' '
-) string
-    Header @calculatedFrom( ""a\\""
-    ), }
-")).
-Eval vm_compute in ("<<<M715>>>" ++ check (runes_of_ascii "root packet len // trailing space 
-{
-// " ++ [27880; 37322]%N ++ runes_of_ascii "
-//	t
-char[10
-] metadata	@lengthOf( o ) `crlf
-line`,
-    @rightPad
-( ( ' '
-) string
-    Header @calculatedFrom( ""a\\""
-    ), }
-")).
-Eval vm_compute in ("<<<M456>>>" ++ check (runes_of_ascii "packet
-    // `tick` ""quote"" 'q'
-    crc
-// packet A { u8 x, }
-//	t
-{
-u32 a1 ,
-    // trailing space 
-    roots
-charz //
-`two words`,	}
-    MetaData int {
-) /// triple")).
-Eval vm_compute in ("<<<M1746>>>" ++ check (runes_of_ascii "packet A {
-    match k as n {
-        [
-            ""a"", 22, ""c c"", 4, ""e"",
-            66, ""g"", 8, ""i"", 10,
-            ""k"", 12
-        ] : B,
-        2 : C,
+root packet matchKey {
+    @calculatedFrom(""\n"")
+    zchar crc `100% of %d`,
+    repeat x {
+        char[] options1 `two words`,
+        repeat metadata {
+            options1 @calculatedFrom(""CRC32""),
+        },
+        uint64 matchKey `" ++ [28040; 24687; 31867; 22411]%N ++ runes_of_ascii "`,
+        leftPad,
     },
+    repeat i64 _x `{ , }`,
+    @tag(1)
+    char[255] len,
+}
+
+root packet charz {
+    float64 body @lengthOf(falsey),
+    zchar repeatCount,
+}
+
+root packet asx {
+    //x
+    // 50% %s
 }")).
-Eval vm_compute in ("<<<M2104>>>" ++ check (runes_of_ascii "root
-packet
+Eval vm_compute in ("<<<M1407>>>" ++ check (runes_of_ascii "options {
+    StringPrefixLenType = u16;
+    ArrayPrefixLenType = u16;
+}
 
-    matchKey { zchar[3]
-    pack@calculatedFrom(
+packet SampleBinary {
+    uint16 MsgType `" ++ [28040; 24687; 31867; 22411]%N ++ runes_of_ascii "`,
+    u16 BodyLenght @lengthOf(Body) `" ++ [28040; 24687; 20307; 38271; 24230]%N ++ runes_of_ascii "`,
+    match MsgType as Body {
+        1 : Logon,
+        2 : Logout,
+        3 : Heartbeat,
+        4 : RiskControlRequest,
+        5 : RiskControlResponse,
+    },
+    @calculatedFrom(""CRC32"")
+    u32 Ckecksum `" ++ [26657; 39564; 21644]%N ++ runes_of_ascii "`,
+}
 
-""a	b"" 
+packet Logon {
+    @leftPad('0')
+    char[10] UserName `" ++ [29992; 25143; 21517]%N ++ runes_of_ascii "`,
+    string Password `" ++ [23494; 30721]%N ++ runes_of_ascii "`,
+    uint64 ClientId `" ++ [23458; 25143; 31471]%N ++ runes_of_ascii "ID`,
+    u16 HeartbeatInterval `" ++ [24515; 36339; 38388; 38548]%N ++ runes_of_ascii "`,
+}
+
+packet Logout {
+    @rightPad('0')
+    char[10] UserName `" ++ [29992; 25143; 21517]%N ++ runes_of_ascii "`,
+    uint64 ClientId `" ++ [23458; 25143; 31471]%N ++ runes_of_ascii "ID`,
+}
+
+packet Heartbeat {
+}
+
+packet RiskControlRequest {
+    string UniqueOrderId `" ++ [21807; 19968; 35746; 21333; 21495]%N ++ runes_of_ascii "`,
+    char[16] ClOrdID `" ++ [23458; 25143; 35746; 21333; 21495]%N ++ runes_of_ascii "`,
+    char[3] MarketID `" ++ [24066; 22330]%N ++ runes_of_ascii "id`,
+    char[12] SecurityID `" ++ [35777; 21048; 20195; 30721]%N ++ runes_of_ascii "`,
+    char Side `" ++ [20080; 21334; 26041; 21521]%N ++ runes_of_ascii "`,
+    char OrderType `" ++ [35746; 21333; 31867; 22411]%N ++ runes_of_ascii "`,
+    u64 Price `" ++ [20215; 26684]%N ++ runes_of_ascii "`,
+    u32 Qty `" ++ [25968; 37327]%N ++ runes_of_ascii "`,
+    repeat string ExtraInfo `" ++ [38468; 21152; 20449; 24687]%N ++ runes_of_ascii "`,
+    repeat SubOrder {
+        char[16] ClOrdID `" ++ [23376; 35746; 21333; 21495]%N ++ runes_of_ascii "`,
+        u64 Price `" ++ [23376; 35746; 21333; 20215; 26684]%N ++ runes_of_ascii "`,
+        u32 Qty `" ++ [23376; 35746; 21333; 25968; 37327]%N ++ runes_of_ascii "`,
+    },
+}
+
+packet RiskControlResponse {
+    string UniqueOrderId `" ++ [21807; 19968; 35746; 21333; 21495]%N ++ runes_of_ascii "`,
+    i32 Status `" ++ [29366; 24577]%N ++ runes_of_ascii "`,
+    string Msg `" ++ [32467; 26524; 20449; 24687]%N ++ runes_of_ascii "`,
+    repeat Detail,
+}
+
+packet Detail {
+    string RuleName `" ++ [35268; 21017; 21517; 31216]%N ++ runes_of_ascii "`,
+    u16 Code `" ++ [21407; 22240; 20195; 30721]%N ++ runes_of_ascii "`,
+}")).
+Eval vm_compute in ("<<<M4156>>>" ++ check (runes_of_ascii "packet trueish {
+    @tag(65535)
+    float @lengthOf(As) `" ++ [233]%N ++ runes_of_ascii "`,
+    i32 lengthOf,
+    repeat float64 stringy `" ++ [28040; 24687; 31867; 22411]%N ++ runes_of_ascii "`,
+    @lengthOf(A)
+    //	t
+    @calculatedFrom(""a\\"")
+    // @lengthOf(
+    @leftPad('\x00')
+    repeat u32 crc,
+    chars,
+    repeat string lengthOf `two words`,
+}// @lengthOf(
+
+packet metadata {
+    @leftPad('0')
+    A {
+        // `tick` ""quote"" 'q'
+        asx {
+            metadata `crlf
+            line`,
+            a1 @lengthOf(zchar),
+            // " ++ [27880; 37322]%N ++ runes_of_ascii "
+            i32 _x,
+            T {
+                match repeatCount as charz {
+                    // c
+                    0123456789 : metadata,
+                },
+                float64 rootA `" ++ [28040; 24687; 31867; 22411]%N ++ runes_of_ascii "`,
+                /// triple
+                // " ++ [128512]%N ++ runes_of_ascii " emoji
+            },
+        },
+        roots @lengthOf(falsey) `doc`,
+        //x
+        // a // b
+    },
+    int32 x,
+    float32 calculatedFrom,//
+    @lengthOf(charz)
+    @calculatedFrom(""x y"")
+    @lengthOf(rootA)
+    char[00] f32a @calculatedFrom(""a\\"") `crlf
+    line`,
+    zchar[10] metadata,
+    zchar[007] leftPad,
+    repeat i8i8 rootA,
+    uint64 calculatedFrom @calculatedFrom(""x y"") `tab	here`,
+}")).
+Eval vm_compute in ("<<<M491>>>" ++ check (runes_of_ascii "
+root
+    packet
+i64_
+    {  char[
+    0123456789 ]
+calculatedFrom
+    // c
+    `tab	here` , @calculatedFrom(""{,}"" ) crc // packet A { u8 x, }
+_x `say ""hi""` //	t
+,float32 Foo
+// a // b
+//
+@calculatedFrom( ""a	b"") ,repeat zchar[
+3
+// @lengthOf(
+// c
+] crc `{ , }` /// triple
+,
+    u16
+// packet A { u8 x, }
+//
+len `a\` , //	t
+u8 int
+`// not a comment` , @tag( // " ++ [27880; 37322]%N ++ runes_of_ascii "
+00
+// a // b
+//
+) zchar[0
+]Header ,  @leftPad (  '\x00' ) @calculatedFrom(
+""a	b""
+// packet A { u8 x, }
+// trailing space 
+) // " ++ [128512]%N ++ runes_of_ascii " emoji
+@calculatedFrom( """" ) f32a uint8x  , @lengthOf( repeatCount ) _x
+@calculatedFrom( ""packet"") , }
+    options
+{ calculatedFrom
+    // trailing space 
+    =3 ;}
+options	{ repeatCount = uint16  As
+= """ ++ [128512]%N ++ runes_of_ascii """;
+}
+packet u{ zchar[
+    65535 ] lengthOf
+@calculatedFrom(//
+""packet"" ) ,// " ++ [27880; 37322]%N ++ runes_of_ascii "
+@lengthOf( i64_  ) chars,
+@calculatedFrom(
+""\n""
+    )@rightPad//	t
+( )
+@lengthOf(
+    // a // b
+    int) // `tick` ""quote"" 'q'
+match options1 as asx  {
+255:a1 , } ,@tag( 4294967296 ) //
+@calculatedFrom(
+""a\\"" ) @tag(	4294967296 ) repeat //
+char[] chars `{ , }`
+,	} packet // 50% %s
+f32a { asx, }
+")).
+Eval vm_compute in ("<<<M1199>>>" ++ check (runes_of_ascii "packet len
+{
+    repeat zchar[ 4294967296 ] roots
+`tab	here` , @tag(
+    // @lengthOf(
+    1 //
 )
-`doc` 
-,	} options 
-	    // c
-  { } 
-MetaData
-A
+char[0123456789 ] MetaDataX ,
+} MetaData
+    stringy
+{
+    // " ++ [128512]%N ++ runes_of_ascii " emoji
+    packetx
+    falsey,
+string
+    a1 `u8 x,`
+, int64 matchKey ,
+string_ matchKey `" ++ [233]%N ++ runes_of_ascii "` ,chars Logon
+    `100% of %d` , // " ++ [128512]%N ++ runes_of_ascii " emoji
+}
+packet
+//
+/// triple
+int
+{u32 float `" ++ [233]%N ++ runes_of_ascii "` , @calculatedFrom(
+    // @lengthOf(
+    ""a\""b"" ) match u128 as packetx{
+// 50% %s
+// `tick` ""quote"" 'q'
+[ 3 ,
+""\" ++ [233]%N ++ runes_of_ascii """] :
+i8i8 ,007 :
+    chars, [
+    ""x y"" ,	""packet""
+, 10 // trailing space 
+]: rootA , [ 00 , 0 ] : x
+,
+} ,// trailing space 
+tag {	int8
+trueish @lengthOf( Header
+) , repeatCount
+@calculatedFrom( ""{,}"")
+, } , @tag( 007 )
+    repeat MetaDataX  metadata , @tag(42
+/// triple
+//x
+) char[ 00 ]string_@calculatedFrom(
+""// no comment"")// `tick` ""quote"" 'q'
+,
+    char[]Pad`doc` ,repeat
+char[
+    7 ] Logon , }
+MetaData _x
+{Foo
+packetx `" ++ [28040; 24687; 31867; 22411]%N ++ runes_of_ascii "`, i32 Logon,
+matchKey // c
+uint8x
+    , zchar[ 1
+    // packet A { u8 x, }
+    ]
+Foo, metadata
+falsey// `tick` ""quote"" 'q'
+`a\` ,}
+")).
+Eval vm_compute in ("<<<M4379>>>" ++ check (runes_of_ascii "MetaData tag {
+    u16 leftPad `doc`,
+    chars _x `say ""hi""`,
+}// @lengthOf(
+
+root packet crc {
+    packetx o `// not a comment`,
+    char[] matchKey,
+    @leftPad()
+    repeat repeatCount `a\`,
+    @leftPad('0')
+    Header {
+        match rootA as packetx {
+            """" : options1,
+            [""CRC32"", ""packet"", ""1""] : x,
+            [""`tick`""] : len,
+        },
+    },
+}
+
+packet roots {
+    //x
+    @tag(1)
+    charz,
+    // @lengthOf(
+    //x
+    int32 msg_type,
+    @lengthOf(matchKey)
+    @calculatedFrom(""a\\"")
+    repeat trueish {
+        u x,
+    },
+    i32 msg_type,
+    match trueish as rootA {
+        """" : f32a,
+    },
+    @lengthOf(repeatCount)
+    i64 packetx @lengthOf(i64_),
+    repeat i32 o `// not a comment`,
+    @tag(42)
+    @calculatedFrom(""1"")
+    @lengthOf(crc)
+    //
+    A o `two words`,
+    repeat i64_,
+    chars `" ++ [233]%N ++ runes_of_ascii "`,
+}
+
+options {
+    A = ""CRC32""
+}
+
+MetaData u8x {
+    u8 string_ `line1
+        line2`,
+    BodyLength i8i8 `" ++ [28040; 24687; 31867; 22411]%N ++ runes_of_ascii "`,
+}")).
+Eval vm_compute in ("<<<M1006>>>" ++ check (runes_of_ascii "packet stringy {
+    i16 _x @calculatedFrom( ""it's"" ) `a\`,
+@rightPad	( '0' )match	i64_
+as body { 007 : i64_ 42
+:
+trueish 65535
+//
+// " ++ [128512]%N ++ runes_of_ascii " emoji
+: // 50% %s
+As ,
+0123456789 : metadata
+    // packet A { u8 x, }
+    ""packet"" //x
+: Pad , // a // b
+} , repeat zchar	{
+repeat zchar[ 4294967296]Foo`line1
+line2` ,
+// @lengthOf(
+/// triple
+match metadata
+    as trueish // @lengthOf(
+{
+// 50% %s
+// `tick` ""quote"" 'q'
+""abc"" :i8i8,[	0  , 7
+, 00 ,
+0 , // 50% %s
+10] :
+    Pad// @lengthOf(
+, }// packet A { u8 x, }
+,  repeat //x
+x_y_z Logon `crlf
+line`
+    // packet A { u8 x, }
+    ,
+i8i8 `it's`  , } , @rightPad
+('\x00'
+    )@lengthOf( rootA )
+    @lengthOf(
+    body // trailing space 
+)
+    // c
+    match
+    /// triple
+    u
+/// triple
+// packet A { u8 x, }
+as falsey {  65535:
+    A	""abc""
+: falsey , [  ""a\\""// c
+] :
+    // " ++ [27880; 37322]%N ++ runes_of_ascii "
+    uint8x [ ""x y""  ]
+//	t
+/// triple
+:x_y_z , """ ++ [233]%N ++ runes_of_ascii "t" ++ [233]%N ++ runes_of_ascii """: f32a , 007 : // c
+lengthOf} , }
+")).
+Eval vm_compute in ("<<<M4097>>>" ++ check (runes_of_ascii "
+root 
+packet
+    crc
 
     {
+    u32
+metadata
 
-    int8
-msg_type
+    ,
 
+As
+falsey//x
+    	`crlf
+line`,  repeatCount {
+repeat
+	x_y_z 	 //	t
+	{repeat  zchar crc	`u8 x,` 
+        /// triple
+	// @lengthOf(
+  	,  
+      // trailing space 
+	}
+
+,  char[] MetaDataX
+@lengthOf(	Foo
+	) `" ++ [28040; 24687; 31867; 22411]%N ++ runes_of_ascii "`, } 
 , }
 
-")).
-Eval vm_compute in ("<<<M2130>>>" ++ check (runes_of_ascii "packet A {
-    Inner {
-        match k as n {
-            [
-                1, 22, 007, 4, 5,
-                66
-            ] : B,
-        },
-    },
-}")).
-Eval vm_compute in ("<<<M2062>>>" ++ check (runes_of_ascii "packet A {
-    Inner {
-        u8 x `a
-                b`,
-        Deep {
-            u8 y `a
-                        b`,
-        },
-    },
-}")).
-Eval vm_compute in ("<<<M1813>>>" ++ check (runes_of_ascii "  options
-{	zchar  =
-007	Header
-=
+    root
 
-    char[// c
-    007
-    ] ;
-lengthOf	= 
-char[ 7]
-    ;chars= //
-		""""  // a // b
-    ; }
+    packet  len
 
-")).
-Eval vm_compute in ("<<<M1096>>>" ++ check (runes_of_ascii "// top
-root
-    // c0
-packet
-    // c1
-u128
-    // c2
-{
-    // c3
-chars
-    // c4
-`it's`
-    // c5
+{  }packet 	 //x
+roots {@tag( 007
+)rootA
+    {
+u32 Z9_	`doc`,
+} 
+, repeat
+rootA
+	, 
+@tag(	1
+	)
+@lengthOf(
+//	t
+
+	// 50% %s
+	rootA ) u64
+
+packetx// trailing space 
+  ,
+
+    repeat	f64	u8x ,
+	f32  string_`two words`
 ,
-    // c6
-}
-    // c7
-")).
-Eval vm_compute in ("<<<M1243>>>" ++ check (runes_of_ascii "root packet matchKey { zchar[ 3 ] pack @calculatedFrom( ""a	b"" ) // c
-`doc` , } options { } MetaData A { int8 msg_type , }")).
-Eval vm_compute in ("<<<M351>>>" ++ check (runes_of_ascii "packet lengthOf
-    { @tag(007 )trueish
-    // c
-    {
-    repeat string asx,
-} , } options
-    {roots=
-    ""x y""	; }
-")).
-Eval vm_compute in ("<<<M6>>>" ++ check (runes_of_ascii "root	packet
-    charz { // " ++ [128512]%N ++ runes_of_ascii " emoji
-repeat char[65535
-]
-options1,} options  { As=
-    //
-    ""\n""
-    } // a // b")).
-Eval vm_compute in ("<<<M2107>>>" ++ check (runes_of_ascii "MetaData float {
-    float64 charz `
-        `,
-}
+char[
 
-root packet chars {
-    // c
-    @rightPad('0')
-    Foo,
-}")).
-Eval vm_compute in ("<<<M1097>>>" ++ check (runes_of_ascii "// top
-root // c0
-packet
-    // c1
-u128 // c2a
-  // c2b
-{
-    // c3
-chars
-    // c4
-`it's` , }
-    // c7
-")).
-Eval vm_compute in ("<<<M283>>>" ++ check (runes_of_ascii "MetaData asx { chars
-f32a , string /// triple
-T , } options
-{ zchar=
-    10
-    // " ++ [27880; 37322]%N ++ runes_of_ascii "
-    crc= true}
-")).
-Eval vm_compute in ("<<<M877>>>" ++ check (runes_of_ascii "packet A {
-  match k as n {
-    [1, ""bb"", 007, ""d"", 5, ""f"", 7, ""h"", 9, ""j""] : B,
-    2 : C
-  },
-}")).
-Eval vm_compute in ("<<<M552>>>" ++ check (runes_of_ascii "root packet tag { }  packet MetaDataX{char[007	]
-// c
-/// triple
-asx  @calculatedFrom( ""a\""b""")).
-Eval vm_compute in ("<<<M2038>>>" ++ check (runes_of_ascii "root packet P {
-    // c3a
-    // c3b
-    char c,// c6
-    u8 x,// c9a
-    // c9b
-}
-// c10")).
-Eval vm_compute in ("<<<M1202>>>" ++ check (runes_of_ascii "MetaData float { float64 charz `
-` , } root packet chars { // c
-@rightPad ( '0' ) Foo , }")).
-Eval vm_compute in ("<<<M1413>>>" ++ check (runes_of_ascii "packet chars { } packet MetaDataX { @tag( 42
-// c
-) i16 string_ , repeat x `say ""hi""` , }")).
-Eval vm_compute in ("<<<M1081>>>" ++ check (runes_of_ascii "packet A { match k as n // a
- { // b
- 1 // c
- : // d
- B // e
- , // f
- } // g
- , // h
- }")).
-Eval vm_compute in ("<<<M1143>>>" ++ check (runes_of_ascii "packet metadata { Logon { A `" ++ [28040; 24687; 31867; 22411]%N ++ runes_of_ascii "` , tag o
-// c
-, } , zchar len `// not a comment` , }")).
-Eval vm_compute in ("<<<M1348>>>" ++ check (runes_of_ascii "packet o { repeat Logon // c
-uint8x , } options { asx = zchar[ 3 ] stringy = '\x00' }")).
-Eval vm_compute in ("<<<M384>>>" ++ check (runes_of_ascii "root packet SimpleMessage {
-	uint16 MsgType `" ++ [28040; 24687; 31867; 22411]%N ++ runes_of_ascii "`,
-	string JsonBody `Json" ++ [23383; 31526; 20018; 28040; 24687; 20307]%N ++ runes_of_ascii "`,
-}")).
-Eval vm_compute in ("<<<M1309>>>" ++ check (runes_of_ascii "MetaData body { // c
-i64 pack `it's` , } packet stringy { int16 calculatedFrom , }")).
-Eval vm_compute in ("<<<M848>>>" ++ check (runes_of_ascii "packet A {
-  match k as n {
-    [1, 22, 007, 4, 5, 66, 7, 8] : B
-    2 : C
-  },
-}")).
-Eval vm_compute in ("<<<M815>>>" ++ check (runes_of_ascii "packet A {
-  match k as n {
-    [""a"", 22, ""c c"", 4, ""e""] : B
-    2 : C
-  },
-}")).
-Eval vm_compute in ("<<<M1094>>>" ++ check (runes_of_ascii "packet A {
-    match k as n {
-        1 : B // c
-        , // d
-    },
-}")).
-Eval vm_compute in ("<<<M1723>>>" ++ check (runes_of_ascii "
-packet
+4294967296// @lengthOf(
+  	]charz
 
-A
-	{ match
-    k
-as n
-{ 
-[ 1 ,
+@calculatedFrom( ""CRC32""  )  ,  char[]
 
-22  ] 
-:
-B
-2
-:
+options1
+, char[ 42 //
 
-C }  ,}
-")).
-Eval vm_compute in ("<<<M1855>>>" ++ check (runes_of_ascii "// c
-packet x {
-    @rightPad()
-    repeat roots Logon `doc`,
-}")).
-Eval vm_compute in ("<<<M1819>>>" ++ check (runes_of_ascii "
+	]  // a // b
+      Logon  @calculatedFrom(  
+  // c
+	// @lengthOf(
+    """ ++ [233]%N ++ runes_of_ascii "t" ++ [233]%N ++ runes_of_ascii """ 
+)
+`tab	here`
+,
 
-  root packet
-u128
-    {
+@rightPad ( 	 // @lengthOf(
+	' ' ) match  matchKey
 
-    chars`it's` ,
+    as	packetx
+	{ 007// trailing space 
+	: len	,
 
-}  // c
-")).
-Eval vm_compute in ("<<<M2050>>>" ++ check (runes_of_ascii "root packet P {
-    hdr {
-        u8 a,
-    },
-    u8 x,
-}")).
-Eval vm_compute in ("<<<M1074>>>" ++ check (runes_of_ascii "packet A { u8 x, } // a
-// b
-packet B {} // c
-// d")).
-Eval vm_compute in ("<<<M1995>>>" ++ check (runes_of_ascii "  root
-
-packet
-A
-
-{u8  x`a
-b`
-	,
+    } 
+,
 
     }
 
 ")).
-Eval vm_compute in ("<<<M398>>>" ++ check (runes_of_ascii "packet
-    // `tick` ""quote"" 'q'
-    crc")).
-Eval vm_compute in ("<<<M517>>>" ++ check (runes_of_ascii "root packet tag { }  packet MetaDataX")).
-Eval vm_compute in ("<<<M1804>>>" ++ check (runes_of_ascii "packet body {
-    // @lengthOf(
-}")).
-Eval vm_compute in ("<<<M1018>>>" ++ check (runes_of_ascii "packet A {
- u8 x `d" ++ [8239]%N ++ runes_of_ascii "`, // c" ++ [8239]%N ++ runes_of_ascii "
-}")).
-Eval vm_compute in ("<<<M2056>>>" ++ check (runes_of_ascii "
-// c" ++ [12]%N ++ runes_of_ascii "
-  packet
+Eval vm_compute in ("<<<M4205>>>" ++ check (runes_of_ascii "packet x_y_z {
+    @calculatedFrom(""" ++ [128512]%N ++ runes_of_ascii """)
+    //
+    match a1 as MetaDataX {
+        """ ++ [128512]%N ++ runes_of_ascii """ : u8x,
+        [""" ++ [28040; 24687]%N ++ runes_of_ascii """] : asx,
+        255 : falsey,
+        [007] : stringy,
+        10 : chars,
+    },
+    string_ {
+        char[4294967296] packetx,
+    },
+}
 
+root packet u128 {
+    calculatedFrom MetaDataX `it's`,
+    repeat leftPad x_y_z,
+}
+
+packet BodyLength {
+    char Pad @lengthOf(uint8x) `line1
+    line2`,
+    uint16 charz,
+    // " ++ [128512]%N ++ runes_of_ascii " emoji
+    // c
+    @leftPad('\x00')
+    repeat A {
+        repeat float32 Z9_,
+        u16 A @calculatedFrom(""1"") ``,
+        Pad {
+            Packet {
+                repeat uint8 trueish,
+                stringy @lengthOf(u) `doc`,// c
+                charz Foo `
+                `,
+                uint16 falsey `100% of %d`,
+            },
+        },
+        f32 roots,
+    },
+    // c
+}")).
+Eval vm_compute in ("<<<M4311>>>" ++ check (runes_of_ascii "root packet uint8x {
+    // " ++ [27880; 37322]%N ++ runes_of_ascii "
+    MetaDataX `doc`,
+    char A `line1
+    line2`,
+    match BodyLength as roots {
+        [""// no comment"", 4294967296, """ ++ [128512]%N ++ runes_of_ascii """] : falsey,
+        // @lengthOf(
+        """ ++ [233]%N ++ runes_of_ascii "t" ++ [233]%N ++ runes_of_ascii """ : o,
+        [7] : o,
+        65535 : int,
+        3 : int,
+        65535 : Foo,
+        // packet A { u8 x, }
+    },
+    @lengthOf(MetaDataX)
+    repeat Packet chars,
+    @calculatedFrom(""abc"")
+    @lengthOf(uint8x)
+    @leftPad()
+    // " ++ [27880; 37322]%N ++ runes_of_ascii "
+    i8 x,
+    repeat As {
+        _x @calculatedFrom(""x y"") `100% of %d`,
+        i16 options1 @lengthOf(o),
+        repeat string i8i8,
+        char[255] packetx `a\`,
+    },
+    @leftPad('\x00')
+    u32 u128 @lengthOf(msg_type) `// not a comment`,
+    zchar @lengthOf(crc),
+    char[0] a1,
+    @leftPad(' ')
+    char[4294967296] int,
+}")).
+Eval vm_compute in ("<<<M3684>>>" ++ check (runes_of_ascii "packet u {
+    match Z9_ as Z9_ {
+        7 : packetx,
+    },
+    uint8x `// not a comment`,
+    @lengthOf(x)
+    pack `line1
+        line2`,
+    @tag(65535)
+    x_y_z `a\`,
+    float32 tag `100% of %d`,
+    leftPad leftPad,
+    @calculatedFrom(""CRC32"")
+    @rightPad(' ')
+    string x,// " ++ [128512]%N ++ runes_of_ascii " emoji
+    @leftPad(' ')
+    i8 T @lengthOf(Z9_),
+    packetx @calculatedFrom(""packet""),
+}
+
+options {
+    u8x = 007;
+    x_y_z = ""a	b"";
+}
+
+packet falsey {
+    @lengthOf(int)
+    @calculatedFrom(""// no comment"")
+    @calculatedFrom(""" ++ [28040; 24687]%N ++ runes_of_ascii """)
+    // @lengthOf(
+    zchar[4294967296] u,
+    int8 BodyLength @lengthOf(f32a),
+    @tag(4294967296)
+    uint16 calculatedFrom `doc`,
+    float32 As,
+}
+
+packet tag {
+}
+
+packet leftPad {
+    @rightPad()
+    repeat char[42] i8i8,
+}")).
+Eval vm_compute in ("<<<M4452>>>" ++ check (runes_of_ascii "packet body {
+    @calculatedFrom(""x y"")
+    charz `100% of %d`,
+    @tag(007)
+    repeat packetx,
+    @calculatedFrom(""\" ++ [233]%N ++ runes_of_ascii """)
+    int8 charz @calculatedFrom(""`tick`""),
+    @lengthOf(trueish)
+    @rightPad(' ')
+    repeat u lengthOf `// not a comment`,
+    @rightPad('0')
+    @rightPad(' ')
+    @tag(4294967296)
+    x trueish,
+    charz @lengthOf(_x),
+    @calculatedFrom(""// no comment"")
+    @rightPad()
+    @calculatedFrom(""\" ++ [233]%N ++ runes_of_ascii """)
+    match x as chars {
+        10 : u128,
+        007 : chars,
+        ""it's"" : u128,
+        255 : trueish,
+    },
+    match falsey as roots {
+        ""// no comment"" : lengthOf,
+        """ ++ [233]%N ++ runes_of_ascii "t" ++ [233]%N ++ runes_of_ascii """ : len,
+        ""1"" : i8i8,
+        [0, """ ++ [28040; 24687]%N ++ runes_of_ascii """, 255] : uint8x,
+        10 : T,
+        ""x y"" : u128,
+    },
+}")).
+Eval vm_compute in ("<<<M851>>>" ++ check (runes_of_ascii "MetaData	u8x { int8 trueish // a // b
+, }
+packet crc {uint8
+a1 `
+` , u32	x  @calculatedFrom(
+""abc"") ,@lengthOf(
+crc ) repeat	char[ // " ++ [27880; 37322]%N ++ runes_of_ascii "
+3
+    ]
+charz
+`it's` , @calculatedFrom( ""\" ++ [233]%N ++ runes_of_ascii """
+)repeat uint8x T `doc`
+    , } packet
+Foo {  @lengthOf(	msg_type)
+    repeat uint64// " ++ [27880; 37322]%N ++ runes_of_ascii "
+float , a1
+    , repeatCount {
+    char[00] u8x
+    @lengthOf(
+    Header )
+    `{ , }` , len @lengthOf(options1
+) ,
+    x	@lengthOf( pack) `" ++ [28040; 24687; 31867; 22411]%N ++ runes_of_ascii "` , char[] leftPad
+// a // b
+// @lengthOf(
+`` ,// packet A { u8 x, }
+} , // " ++ [128512]%N ++ runes_of_ascii " emoji
+@tag(
+    4294967296
+)
+    @lengthOf( calculatedFrom
+) @calculatedFrom( ""1"" ) repeat zchar[10 ] asx `" ++ [233]%N ++ runes_of_ascii "` ,
+//x
+// " ++ [27880; 37322]%N ++ runes_of_ascii "
+@lengthOf(
+    float )
+repeat BodyLength, string asx`crlf
+line` ,}
+")).
+Eval vm_compute in ("<<<M3324>>>" ++ check (runes_of_ascii "// top
+options
+    // c0
+{
+    // c1
+}
+    // c2
+root
+    // c3
+packet
+    // c4
+u
+    // c5
+{
+    // c6
+@rightPad
+    // c7
+(
+    // c8
+)
+    // c9
+@tag(
+    // c10
+42
+    // c11
+)
+    // c12
+@calculatedFrom(
+    // c13
+""""
+    // c14
+)
+    // c15
+repeat
+    // c16
+u8
+    // c17
+msg_type
+    // c18
+,
+    // c19
+@lengthOf(
+    // c20
+stringy
+    // c21
+)
+    // c22
+@leftPad
+    // c23
+(
+    // c24
+'\x00'
+    // c25
+)
+    // c26
+@tag(
+    // c27
+4294967296
+    // c28
+)
+    // c29
 A
+    // c30
+`crlf
+line`
+    // c31
+,
+    // c32
+zchar[
+    // c33
+1
+    // c34
+]
+    // c35
+asx
+    // c36
+`" ++ [233]%N ++ runes_of_ascii "`
+    // c37
+,
+    // c38
+charz
+    // c39
+,
+    // c40
+}
+    // c41
+")).
+Eval vm_compute in ("<<<M1004>>>" ++ check (runes_of_ascii "root
+    // @lengthOf(
+    packet falsey
+{ @leftPad ( )repeat T
+    //	t
+    { x_y_z @calculatedFrom( ""\" ++ [233]%N ++ runes_of_ascii """)
+// a // b
+/// triple
+, }
+,
+} packet
+//	t
+// " ++ [128512]%N ++ runes_of_ascii " emoji
+matchKey{ @tag(7 )	leftPad @calculatedFrom( ""\" ++ [233]%N ++ runes_of_ascii """ ) `crlf
+line`,
+    @calculatedFrom( ""{,}""
+    ) leftPad u128 , // packet A { u8 x, }
+@calculatedFrom(""""  )@calculatedFrom(""a\\"" ) uint32 x`" ++ [28040; 24687; 31867; 22411]%N ++ runes_of_ascii "` ,
+    // packet A { u8 x, }
+    @tag(  0123456789 )// 50% %s
+@tag( 007) @rightPad( '0'
+) repeat trueish ,  stringy // packet A { u8 x, }
+@lengthOf( stringy ) `line1
+line2`,
+    @tag( 255)repeat int8
+repeatCount ,} //x
+MetaData
+repeatCount { // @lengthOf(
+char[ 0123456789] Foo
+`{ , }`, }
+")).
+Eval vm_compute in ("<<<M294>>>" ++ check (runes_of_ascii "packet falsey { options1 float , i8i8
+{ a1  @lengthOf( calculatedFrom ) ,	zchar[	0  ]Foo
+    // packet A { u8 x, }
+    ,repeat T
+    //
+    {
+    match trueish as crc
+{ 42 : T
+, } ,string	_x `tab	here` ,repeatCount // trailing space 
+{ char[]
+// `tick` ""quote"" 'q'
+// " ++ [128512]%N ++ runes_of_ascii " emoji
+u,u16 msg_type `{ , }` , }
+, } , match
+    /// triple
+    x_y_z
+as	zchar  { [ 00 ]: Z9_, }
+, } ,
+repeat u8 charz , @tag(
+    255 ) match lengthOf as
+tag
+{  ""1"" :  u8x , """ ++ [28040; 24687]%N ++ runes_of_ascii """ :msg_type[ 7 ,
+""\n"" ] : Z9_ , 10: leftPad ,
+    }
+, @calculatedFrom( ""a\\"")	string
+    rootA @calculatedFrom( ""a	b"") `` , u8x `a\`
+    // `tick` ""quote"" 'q'
+    ,}
+")).
+Eval vm_compute in ("<<<M3583>>>" ++ check (runes_of_ascii "
+
+  packet	uint8x // 50% %s
+{
+char[]
+
+crc  `" ++ [233]%N ++ runes_of_ascii "`
+	,
+u8	//x
+BodyLength `crlf
+line`
+
+,  @tag(	65535
+	) @calculatedFrom(""packet""
+)	uint8x
+
+    {lengthOf{
+match
+
+u8x
+
+as
+
+msg_type{
+	""{,}""
+: metadata 
+,
+4294967296
+:	float	,
+10
+:
+	a1,  65535:len
+	, 
+""" ++ [128512]%N ++ runes_of_ascii """  : 
+zchar ,
+
+[""" ++ [128512]%N ++ runes_of_ascii """
+]
+	:
+
+    Pad
+
+,  }
+, zchar[
+	42 ]	leftPad
+	,f64 /// triple
+	crc ,
+	u64 
+A
+@calculatedFrom( ""CRC32"" 
+) ,  } 
+,}
+
+,@lengthOf(
+
+crc )
+	repeat  u128 
+Pad ,
+	stringy trueish`say ""hi""`
+
+    ,	As matchKey , @tag(
+10 ) charz @calculatedFrom( ""it's"" 
+)  // trailing space 
+  ,// " ++ [128512]%N ++ runes_of_ascii " emoji
+	@rightPad 
+(
+' ' )
+	a1
+    float
+,	}")).
+Eval vm_compute in ("<<<M4423>>>" ++ check (runes_of_ascii "
+// top
+packet // c0a
+	// c0b
+  A 	 // c1
+	{// c2a
+	// c2b
+  u8  
+  // c3
+	a // c4a
+	// c4b
+,	// c5a
+	  // c5b
+  } 
+    // c6
+	packet// c7a
+      // c7b
+	B	// c8
 
 { 
-}
+	// c9
+
+u16
+    // c10
+b  // c11
+	, // c12
+	}  // c13a
+  // c13b
+    root 
+// c14
+  packet 
+  // c15
+    P  // c16a
+// c16b
+{// c17
+	  u8  // c18
+  K
+// c19
+, 	 // c20a
+    // c20b
+      match  // c21
+    K 
+// c22
+as 
+
+// c23
+M
+	{ 	 // c25a
+	  // c25b
+1  // c26a
+	// c26b
+  :
+    A 
+        // c28
+,
+1 // c30a
+	// c30b
+	: 	 // c31a
+	// c31b
+      B	// c32a
+	// c32b
+,
+// c33
+
+},	}
 
 ")).
-Eval vm_compute in ("<<<M1963>>>" ++ check (runes_of_ascii "
+Eval vm_compute in ("<<<M73>>>" ++ check (runes_of_ascii "packet	x_y_z
+{ @tag( 00 // @lengthOf(
+) i16 packetx
+,string stringy @lengthOf( u
+    ) , repeat packetx
+,	@rightPad
+    (
+'\x00' ) @tag(
+007 ) uint64 f32a
+@lengthOf( asx
+) ,
+    msg_type@calculatedFrom(
+    ""a\""b"" ), string_
+    @lengthOf( packetx	), char[]calculatedFrom, @lengthOf( msg_type)  @calculatedFrom( """" )
+    @rightPad
+( '0' ) rootA , @leftPad(
+' ' )  match
+_x  as
+    string_{ 00 :
+chars ,
+    } ,
+u32 Z9_ `" ++ [233]%N ++ runes_of_ascii "` , }MetaData i64_
+//
+//x
+{u8x//	t
+Logon
+    , char	Z9_
+, char[] Packet`u8 x,` , char[ 10
+    ] // a // b
+options1
+    , }")).
+Eval vm_compute in ("<<<M4443>>>" ++ check (runes_of_ascii "packet body {
+    @lengthOf(zchar)
+    f32 i8i8,
+    uint8x zchar `u8 x,`,/// triple
+}
+
+packet pack {
+    @lengthOf(u)
+    /// triple
+    char[] charz @lengthOf(o),
+    f32a @calculatedFrom(""packet""),
+    @lengthOf(metadata)
+    repeat int32 repeatCount,
+    @leftPad('\x00')
+    char[] chars @lengthOf(roots),
+    @calculatedFrom(""\n"")
+    matchKey,
+}
+
+packet u8x {
+    @calculatedFrom(""{,}"")
+    uint8 string_ @lengthOf(trueish),
+    Header {
+        char[] lengthOf `u8 x,`,
+    },// 50% %s
+    i16 u `say ""hi""`,
+}
+// " ++ [27880; 37322]%N)).
+Eval vm_compute in ("<<<M1293>>>" ++ check (runes_of_ascii "packet msg_type {f32
+    // `tick` ""quote"" 'q'
+    i8i8
+//	t
+// a // b
+@calculatedFrom( ""// no comment"" ), } root packet uint8x
+    { @leftPad	( ' ' ) match body as // " ++ [27880; 37322]%N ++ runes_of_ascii "
+u128 { ""`tick`""  : // `tick` ""quote"" 'q'
+o , } ,} packet repeatCount	{ @rightPad
+    ( ' ' )repeat body
+// " ++ [128512]%N ++ runes_of_ascii " emoji
+// a // b
+{ // 50% %s
+zchar[
+007 ]
+    // " ++ [27880; 37322]%N ++ runes_of_ascii "
+    options1 `a\`  , char[ 4294967296 ] Packet@lengthOf( Foo ) ,
+    }
+,repeat	u32 o
+, zchar[
+    3]
+    // @lengthOf(
+    o `doc` , len
+    `{ , }`	,/// triple
+}")).
+Eval vm_compute in ("<<<M895>>>" ++ check (runes_of_ascii "
+root packet x{  }
+    packet
+    Foo { packetx a1 , metadata u128
+`line1
+line2` , @tag(
+0123456789 ) @calculatedFrom( //
+""// no comment""
+    // 50% %s
+    )Packet
+`// not a comment` , u32 packetx
+,	} options { i64_ = // a // b
+uint32
+    ; u128
+=
+42  Packet
+    ='\x00' i64_ = 007
+;
+Pad = char[65535 ] ;
+    } root packet
+// `tick` ""quote"" 'q'
+//
+msg_type { match	float
+    //
+    as falsey {
+// " ++ [27880; 37322]%N ++ runes_of_ascii "
+// 50% %s
+0123456789 :x ,	""abc"" : x // `tick` ""quote"" 'q'
+} // " ++ [128512]%N ++ runes_of_ascii " emoji
+, }")).
+Eval vm_compute in ("<<<M3482>>>" ++ check (runes_of_ascii "options {
+    LittleEndian = true;
+    FixedStringPadFromLeft = true;
+    FixedStringPadChar = '0';
+}
+packet Reject {
+    @rightPad('0') char[1] Tail,
+    string msgKind,
+    InQty95 {
+        u8 pad0,
+    },
+}
+packet Order {
+    uint32 Ref,
+    repeat i16 seqNo,
+    @rightPad('\x00') char[5] Tail,
+    Reject,
+    f64 clOrdID,
+}
+packet Heartbeat {
+    repeat Order,
+    zchar[8] Tail,
+}
+root packet Fill {
+    repeat Order,
+    repeat string lastPx,
+}
+")).
+Eval vm_compute in ("<<<M153>>>" ++ check (runes_of_ascii "packet calculatedFrom {	char matchKey, zchar[
+//	t
+// `tick` ""quote"" 'q'
+7]  x_y_z `// not a comment`
+    , @leftPad
+( ' ' ) // packet A { u8 x, }
+@rightPad // trailing space 
+(
+    )repeat  Header	`` ,
+body  { repeat i32
+BodyLength, } , match Foo as//x
+pack {
+    0
+: _x// @lengthOf(
+,
+    }
+    , int64
+Foo
+`100% of %d`
+    // `tick` ""quote"" 'q'
+    ,
+} packet asx{}options
+{ o =007; } packet A
+{ }	options { Logon = true}
+")).
+Eval vm_compute in ("<<<M3371>>>" ++ check (runes_of_ascii "// top
 packet
-A
-	{// a
+    // c0
+B // c1a
+  // c1b
+{
+    // c2
+u8 // c3
+a
+    // c4
+, } // c6a
+  // c6b
+root // c7a
+  // c7b
+packet // c8a
+  // c8b
+P
+    // c9
+{ u8 K // c12a
+  // c12b
+, u8 // c14a
+  // c14b
+L @lengthOf( // c16
+Body
+    // c17
+)
+    // c18
+, // c19a
+  // c19b
+match // c20a
+  // c20b
+K // c21a
+  // c21b
+as Body
+    // c23
+{ // c24
+1 : // c26a
+  // c26b
+B
+    // c27
+,
+    // c28
+} // c29
+, // c30
+} // c31
+")).
+Eval vm_compute in ("<<<M647>>>" ++ check (runes_of_ascii "packet Z9_ {  char[65535
+//	t
+// packet A { u8 x, }
+] stringy , match _x as
+BodyLength	{ 0123456789 : repeatCount, 007 // " ++ [27880; 37322]%N ++ runes_of_ascii "
+:
+_x
+    ,  }
+// a // b
+// @lengthOf(
+, }
+// 50% %s
+// `tick` ""quote"" 'q'
+packet MetaDataX { // a // b
+f32a int , i64 pack ,}MetaData roots
+// a // b
+// " ++ [27880; 37322]%N ++ runes_of_ascii "
+{ T Z9_ ,
+u8
+    packetx
+    `
+` ,x
+trueish,uint8x msg_type , lengthOf// `tick` ""quote"" 'q'
+crc `say ""hi""` , } // a // b")).
+Eval vm_compute in ("<<<M226>>>" ++ check (runes_of_ascii "MetaData stringy
+{
+    char[]
+    u
+    ,	leftPad body, char[] matchKey , u32
+    Z9_	, crc body `" ++ [28040; 24687; 31867; 22411]%N ++ runes_of_ascii "`, uint8 packetx , } root //	t
+packet
+    pack// " ++ [128512]%N ++ runes_of_ascii " emoji
+{ @rightPad( ' ' ) float
+    int ,
+@calculatedFrom( """" )
+body
+    {
+match
+lengthOf
+    // a // b
+    as a1 { 255 // `tick` ""quote"" 'q'
+: trueish
+    ,""\" ++ [233]%N ++ runes_of_ascii """
+:
+// 50% %s
+// @lengthOf(
+trueish 1
+:rootA	}
+    ,	},
+}	options { }")).
+Eval vm_compute in ("<<<M511>>>" ++ check (runes_of_ascii "root
+    packet Z9_ {uint32 matchKey `{ , }` ,
+    // " ++ [128512]%N ++ runes_of_ascii " emoji
+    len @lengthOf(T ) , char[
+1 ]
+A, }
+    //x
+    packet
+// a // b
+// trailing space 
+u128 { @calculatedFrom(
+    ""\n"" )	repeat Pad
+A , } root// c
+packet u
+    {
+@leftPad (  '0' )
+    char[ 65535]
+    leftPad
+    @calculatedFrom(
+// trailing space 
+// a // b
+""{,}"") ,
+u16
+    msg_type ,// " ++ [128512]%N ++ runes_of_ascii " emoji
+}
+")).
+Eval vm_compute in ("<<<M4173>>>" ++ check (runes_of_ascii "
+packet
+
+crc {
+
+match
+
+    asx
+	as  tag
+	{ 1
+
+    :u8x
+	,
+    [
+4294967296 ,
+""CRC32"" , 65535 
+,""x y"" ,	00
+
+]
+
+: calculatedFrom
+
+,
+""a\\""	:	packetx
+
+    ,} ,metadata@calculatedFrom( // packet A { u8 x, }
+  """ ++ [28040; 24687]%N ++ runes_of_ascii """
+	)
+``
+, string string_ 
+@calculatedFrom( ""a	b""
+    )
+,  } packet
+
+    options1
+
+{
+
+    char[]	MetaDataX@lengthOf(
+roots	) ,
+	} ")).
+Eval vm_compute in ("<<<M751>>>" ++ check (runes_of_ascii "packet
+body
+{
+roots
+@lengthOf( stringy )`" ++ [28040; 24687; 31867; 22411]%N ++ runes_of_ascii "`,  @leftPad(	' ' ) @rightPad (' ' ) @leftPad () a1 @lengthOf( // trailing space 
+u
+)
+// trailing space 
+// " ++ [27880; 37322]%N ++ runes_of_ascii "
+,  match x as x_y_z
+    {[  255 , ""packet""
+    // packet A { u8 x, }
+    , 007 ,
+    10 ,""" ++ [233]%N ++ runes_of_ascii "t" ++ [233]%N ++ runes_of_ascii """ , 3
+    //x
+    , ""it's""
+    ] :	leftPad
+    // c
+    , }, zchar[1
+    ] i64_ ,}")).
+Eval vm_compute in ("<<<M519>>>" ++ check (runes_of_ascii "//
+MetaData //	t
+a1{trueish len ,
+} MetaData
+x { char[]T,char[] x
+, zchar[4294967296	]
+float ,
+    float32 u128
+, char[ 00 ] rootA
+    , x asx // " ++ [27880; 37322]%N ++ runes_of_ascii "
+, } MetaData _x
+{
+    uint64
+Foo, char[ 00] u8x`say ""hi""`	, } packet
+    repeatCount { lengthOf
+    rootA , } root
+packet float
+    // trailing space 
+    {
+// 50% %s
+//
+}")).
+Eval vm_compute in ("<<<M3477>>>" ++ check (runes_of_ascii "
+options	{	LittleEndian =	true  ;StringPrefixLenType =
+u32; 
+FixedStringPadFromLeft  =
+
+    false
+
+;
+
+FixedStringPadChar
+=
+
+'0' ;
+
+} packet Party { int16
+Acct
+
+    ,
+}	packet Quote
+    {  } root
+packet 
+Order
+
+{
+    string
+
+Side2 ,repeat
+string OrderId 
+,
+repeat
+
+string venue
+
+    ,	Quote
+
+,	}
+
+")).
+Eval vm_compute in ("<<<M740>>>" ++ check (runes_of_ascii "root packet u
+{ _x	@calculatedFrom(// " ++ [27880; 37322]%N ++ runes_of_ascii "
+""// no comment"" ), @lengthOf( // " ++ [27880; 37322]%N ++ runes_of_ascii "
+i64_  )
+    char f32a @calculatedFrom(// 50% %s
+""`tick`"" )
+, @tag( 007)
+@lengthOf( a1)
+@leftPad (' ' )
+    /// triple
+    f32 _x
+    `it's` , @tag( 65535
+    ) zchar[ 0 ] i64_@lengthOf(  options1 ) ,}
+// " ++ [128512]%N ++ runes_of_ascii " emoji
+")).
+Eval vm_compute in ("<<<M1366>>>" ++ check (runes_of_ascii "
+packet
+x { packetx  @calculatedFrom(
+    // 50% %s
+    ""1"" ) `{ , }` ,
+repeat u8 packetx	, tag @calculatedFrom(
+""\n"" ) , @lengthOf( len )
+    u16 Header ,
+    } options {
+    u = """ ++ [128512]%N ++ runes_of_ascii """ }MetaData x_y_z{
+float64  lengthOf ,// a // b
+}	root// " ++ [128512]%N ++ runes_of_ascii " emoji
+packet // 50% %s
+BodyLength {  }
+")).
+Eval vm_compute in ("<<<M1704>>>" ++ check (runes_of_ascii "// 50% %s
+packet	a1
+    { zchar[
+// a // b
+// 50% %s
+007]
+T `it's`
+    ,@rightPad
+    // a // b
+    (
+'\x00')
+    @leftpado repeatCount , }  packet Logon {  }packet	Logon //x
+{ repeat // " ++ [128512]%N ++ runes_of_ascii " emoji
+uint16 u128
+    //
+    `a\`,
+falsey
+@calculatedFrom(""packet"" ) ,
+    } 	 ")).
+Eval vm_compute in ("<<<M3466>>>" ++ check (runes_of_ascii "options {
+    LittleEndian = true;
+    StringPrefixLenType = u16;
+    ArrayPrefixLenType = u8;
+}
+packet Reject {
+    repeat char[1] price,
+    repeat InFlags60 {
+        u8 pad0,
+    },
+    u8 Qty,
+}
+root packet Heartbeat {
+    repeat Reject,
+    repeat string sym,
+}
+")).
+Eval vm_compute in ("<<<M1657>>>" ++ check (runes_of_ascii "// 50% %s
+packet	a1
+    { zchar[
+// a // b
+// 50% %s
+007]
+T `it's`
+    ,@rightPad
+    // a // b
+    (
+'\x00')
+    o repeatCount , }  packet Logon {  }packet	Logon //x
+{ repeat // " ++ [128512]%N ++ runes_of_ascii " emoji
+uint16 u128
+    //
+    `a\`, ,
+falsey
+@calculatedFrom(""packet"" ) ,
+    } 	 ")).
+Eval vm_compute in ("<<<M1559>>>" ++ check (runes_of_ascii "// 50% %s
+packet	a1
+    { zchar[
+// a // b
+// 50% %s
+007]
+T `it's`
+    ]@rightPad
+    // a // b
+    (
+'\x00')
+    o repeatCount , }  packet Logon {  }packet	Logon //x
+{ repeat // " ++ [128512]%N ++ runes_of_ascii " emoji
+uint16 u128
+    //
+    `a\`,
+falsey
+@calculatedFrom(""packet"" ) ,
+    } 	 ")).
+Eval vm_compute in ("<<<M1526>>>" ++ check (runes_of_ascii "// 50% %s
+packet	a1
+     zchar[
+// a // b
+// 50% %s
+007]
+T `it's`
+    ,@rightPad
+    // a // b
+    (
+'\x00')
+    o repeatCount , }  packet Logon {  }packet	Logon //x
+{ repeat // " ++ [128512]%N ++ runes_of_ascii " emoji
+uint16 u128
+    //
+    `a\`,
+falsey
+@calculatedFrom(""packet"" ) ,
+    } 	 ")).
+Eval vm_compute in ("<<<M1331>>>" ++ check (runes_of_ascii "MetaData // trailing space 
+Header{
+x_y_z// packet A { u8 x, }
+metadata	`two words`
+, }MetaData A { zchar[ 255 ] packetx , msg_type
+charz`it's` ,pack BodyLength
+,
+} MetaData repeatCount {u64 x `u8 x,`,  char[	7
+    ] u ,
+    crc
+asx , char[
+10 ] x_y_z , }")).
+Eval vm_compute in ("<<<M154>>>" ++ check (runes_of_ascii "packet trueish {
+zchar[ 65535
+    ] x_y_z , repeat
+char[
+7
+]
+Foo`say ""hi""`, zchar[4294967296
+] trueish ,@tag(
+// " ++ [128512]%N ++ runes_of_ascii " emoji
+// 50% %s
+1	) matchKey
+    { match uint8x
+    as
+Z9_ {
+    // @lengthOf(
+    [
+10
+] : matchKey}
+    ,
+}, } options { int = true }
+
+")).
+Eval vm_compute in ("<<<M281>>>" ++ check (runes_of_ascii "options//
+{ repeatCount  =
+0 ; msg_type =	float64 ;options1 =  ""`tick`""
+    // `tick` ""quote"" 'q'
+    ;// packet A { u8 x, }
+tag  =// c
+""\" ++ [233]%N ++ runes_of_ascii """ } options {
+// @lengthOf(
+// 50% %s
+calculatedFrom=true
+; Foo =	7
+crc =	""it's"" u =
+    false ;
+    }
+
+")).
+Eval vm_compute in ("<<<M1027>>>" ++ check (runes_of_ascii "//x
+root  packet int {
+    //	t
+    }
+    MetaData options1 {
+    zchar[ 3
+    // @lengthOf(
+    ]packetx
+, zchar[
+    007 ]
+repeatCount // " ++ [27880; 37322]%N ++ runes_of_ascii "
+`a\`  ,string metadata	`` ,
+    Z9_ zchar
+`" ++ [233]%N ++ runes_of_ascii "`	,
+    uint64
+    Pad, }
+// `tick` ""quote"" 'q'
+")).
+Eval vm_compute in ("<<<M1670>>>" ++ check (runes_of_ascii "// 50% %s
+packet	a1
+    { zchar[
+// a // b
+// 50% %s
+007]
+T `it's`
+    ,@rightPad
+    // a // b
+    (
+'\x00')
+    o repeatCount , }  packet Logon {  }packet	Logon //x
+{ repeat // " ++ [128512]%N ++ runes_of_ascii " emoji
+uint16 u128
+    //
+    `a\`,
+falsey")).
+Eval vm_compute in ("<<<M1665>>>" ++ check (runes_of_ascii "// 50% %s
+packet	a1
+    { zchar[
+// a // b
+// 50% %s
+007]
+T `it's`
+    ,@rightPad
+    // a // b
+    (
+'\x00')
+    o repeatCount , }  packet Logon {  }packet	Logon //x
+{ repeat // " ++ [128512]%N ++ runes_of_ascii " emoji
+uint16 u128
+    //
+    `a\`,")).
+Eval vm_compute in ("<<<M4314>>>" ++ check (runes_of_ascii "packet Logon {
+    string user,
+}
+
+root packet Frame {
+    u8 K,
+    match K as Body {
+        1 : Logon,
+        2 : Logout,
+    },
+    Tail,
+}
+
+packet Logout {
+    u16 reason,
+}
+
+packet Tail {
+    u32 crc,
+}")).
+Eval vm_compute in ("<<<M4370>>>" ++ check (runes_of_ascii "root
+packet
+    Frame { 
+u8
+    K ,
+    Logon 
+first	, match
+K
+
+    as
+	Body
+    { 1:
+
+    Logon  , 2
+:Logout ,	}	,  }
+packet
+
+Logon{
+	string	user	,
+    }
+
+packet
+    Logout {
+u16 reason , }
+
+")).
+Eval vm_compute in ("<<<M375>>>" ++ check (runes_of_ascii "packet// `tick` ""quote"" 'q'
+x_y_z { }MetaData
+Logon  { pack chars `" ++ [233]%N ++ runes_of_ascii "`, }options { len = 00}root packet	len {char[
+    7  ] asx ,  }  MetaData MetaDataX // " ++ [27880; 37322]%N ++ runes_of_ascii "
+{
+char Foo `100% of %d` , }")).
+Eval vm_compute in ("<<<M1645>>>" ++ check (runes_of_ascii "// 50% %s
+packet	a1
+    { zchar[
+// a // b
+// 50% %s
+007]
+T `it's`
+    ,@rightPad
+    // a // b
+    (
+'\x00')
+    o repeatCount , }  packet Logon {  }packet	Logon //x
+{ repeat")).
+Eval vm_compute in ("<<<M457>>>" ++ check (runes_of_ascii "  root packet zchar {
+}MetaData leftPad { }
+    // " ++ [128512]%N ++ runes_of_ascii " emoji
+    MetaData // c
+charz {_x i8i8 ,	Logon packetx
+    , zchar[ 007 ] u`two words` ,
+// `tick` ""quote"" 'q'
+//	t
+}")).
+Eval vm_compute in ("<<<M4081>>>" ++ check (runes_of_ascii "packet A
+
+    {
+
+match k
+    as  n
+
+    {[ ""a"" , 22	,""c c""
+
+    , 
+4 
+,	""e"" 
+,  66 ,
+
+    ""g""	,
+	8
+, ""i""
+    ,
+10 
+, ""k"",
+12	]
+	:
+B 2	:
+
+    C
+
+}
+	,
 
 }
 ")).
-Eval vm_compute in ("<<<M215>>>" ++ check (runes_of_ascii "
-packet uint8x	{	}")).
-Eval vm_compute in ("<<<M1051>>>" ++ check (runes_of_ascii "packet A {
+Eval vm_compute in ("<<<M3400>>>" ++ check (runes_of_ascii "// top
+root
+    // c0
+packet // c1a
+  // c1b
+P // c2a
+  // c2b
+{ repeat string // c5
+ss ,
+    // c7
+repeat
+    // c8
+u16 ns // c10a
+  // c10b
+,
+    // c11
+} ")).
+Eval vm_compute in ("<<<M3875>>>" ++ check (runes_of_ascii "
+packet A
+{ match k	as
+
+n {
+[ 
+1
+    ,	""bb""
+
+,
+
+007
+
+    , 
+""d"" ,
+
+5 ,
+
+    ""f"" ,7
+, ""h"",	9
+
+,
+
+""j""
+
+    ,
+11 
+,
+    ""l""
+
+] : B
+	2 :
+C	} 
+,
+
+}")).
+Eval vm_compute in ("<<<M2146>>>" ++ check (runes_of_ascii "MetaData BodyLength
+{ int8 Foo
+, string
+    MetaDataX , float zchar ,pack options1
+,asx string_, }
+packet u8x u8x {Foo@lengthOf(charz )
+`" ++ [28040; 24687; 31867; 22411]%N ++ runes_of_ascii "`,  }
+")).
+Eval vm_compute in ("<<<M2203>>>" ++ check (runes_of_ascii "MetaData BodyLength
+{ int8 Foo
+, string
+    MetaDataX , float zchar ` ,pack options1
+,asx string_, }
+packet u8x {Foo@lengthOf(charz )
+`" ++ [28040; 24687; 31867; 22411]%N ++ runes_of_ascii "`,  }
+")).
+Eval vm_compute in ("<<<M1070>>>" ++ check (runes_of_ascii "packet chars	{ @lengthOf(Pad )
+    f64
+    asx , } MetaData asx { char[] lengthOf// " ++ [27880; 37322]%N ++ runes_of_ascii "
+, } packet options1 {
+    @tag( 65535  )u32
+falsey , }
+")).
+Eval vm_compute in ("<<<M2211>>>" ++ check (runes_of_ascii "options options
+    {
+x_y_z// " ++ [27880; 37322]%N ++ runes_of_ascii "
+= 10 ; }
+packet body {
+    @calculatedFrom(
+// trailing space 
+// " ++ [27880; 37322]%N ++ runes_of_ascii "
+""1""
+)	match T as Foo
+    {
+255 :T , }
+,}")).
+Eval vm_compute in ("<<<M2078>>>" ++ check (runes_of_ascii "MetaData BodyLength
+{ int8 Foo
+, root
+    MetaDataX , float zchar ,pack options1
+,asx string_, }
+packet u8x {Foo@lengthOf(charz )
+`" ++ [28040; 24687; 31867; 22411]%N ++ runes_of_ascii "`,  }
+")).
+Eval vm_compute in ("<<<M4166>>>" ++ check (runes_of_ascii "  MetaData
+As
+
+    { 
+char i64_
+`tab	here`
+,char[ 	 // packet A { u8 x, }
+	0
+]  charz`crlf
+line` , zchar[
+	0123456789 
+]
+	metadata ,
 }
-// c" ++ [6158]%N)).
-Eval vm_compute in ("<<<M741>>>" ++ check (runes_of_ascii "_MY?NOgwP4leE+V")).
-Eval vm_compute in ("<<<M734>>>" ++ check (runes_of_ascii "string")).
-Eval vm_compute in ("<<<M767>>>" ++ check (runes_of_ascii "i64")).
+")).
+Eval vm_compute in ("<<<M2033>>>" ++ check (runes_of_ascii "
+packet leftPad {
+@leftPad( '0')
+u32
+i64_ `100% of %d` ,repeat// 50% %s
+i8 chars
+    ,
+} MetaData
+    f32a
+{ // packet A { u8 x, }
+}@x ")).
+Eval vm_compute in ("<<<M2234>>>" ++ check (runes_of_ascii "options
+    {
+x_y_z// " ++ [27880; 37322]%N ++ runes_of_ascii "
+= 10 ; ; }
+packet body {
+    @calculatedFrom(
+// trailing space 
+// " ++ [27880; 37322]%N ++ runes_of_ascii "
+""1""
+)	match T as Foo
+    {
+255 :T , }
+,}")).
+Eval vm_compute in ("<<<M2300>>>" ++ check (runes_of_ascii "options
+    {
+x_y_z// " ++ [27880; 37322]%N ++ runes_of_ascii "
+= 10 ; }
+packet body {
+    @calculatedFrom(
+// trailing space 
+// " ++ [27880; 37322]%N ++ runes_of_ascii "
+""1""
+)	match T as Foo
+    {
+: 255 T , }
+,}")).
+Eval vm_compute in ("<<<M1998>>>" ++ check (runes_of_ascii "
+packet leftPad {
+@leftPad( '0')
+u32
+i64_ `100% of %d` ,repeat// 50% %s
+i8 chars
+    }
+, MetaData
+    f32a
+{ // packet A { u8 x, }
+}")).
+Eval vm_compute in ("<<<M2315>>>" ++ check (runes_of_ascii "options
+    {
+x_y_z// " ++ [27880; 37322]%N ++ runes_of_ascii "
+= 10 ; }
+packet body {
+    @calculatedFrom(
+// trailing space 
+// " ++ [27880; 37322]%N ++ runes_of_ascii "
+""1""
+)	match T as Foo
+    {
+255 :T } ,
+,}")).
+Eval vm_compute in ("<<<M2303>>>" ++ check (runes_of_ascii "options
+    {
+x_y_z// " ++ [27880; 37322]%N ++ runes_of_ascii "
+= 10 ; }
+packet body {
+    @calculatedFrom(
+// trailing space 
+// " ++ [27880; 37322]%N ++ runes_of_ascii "
+""1""
+)	match T as Foo
+    {
+255 T , }
+,}")).
+Eval vm_compute in ("<<<M4292>>>" ++ check (runes_of_ascii "packet A {  match
+
+k as
+
+n
+    {	[
+    1  ,
+
+    22
+,
+
+    007 ,4
+	,
+    5
+    , 66
+
+    ,
+
+7	, 8  ,
+9 
+]: B
+
+,2
+: C }
+	, } ")).
+Eval vm_compute in ("<<<M1226>>>" ++ check (runes_of_ascii "packet msg_type
+{ @lengthOf(i64_
+) @leftPad (
+    ' '
+)
+    // a // b
+    char[1
+    ] float @lengthOf( matchKey
+)
+,} // " ++ [128512]%N ++ runes_of_ascii " emoji")).
+Eval vm_compute in ("<<<M4142>>>" ++ check (runes_of_ascii "  MetaData	i8i8 { rootA
+
+stringy
+
+, 
+char[	4294967296
+    ]asx ,
+i8
+	uint8x
+
+    ,zchar int
+,
+    } 	 // `tick` ""quote"" 'q'
+")).
+Eval vm_compute in ("<<<M944>>>" ++ check (runes_of_ascii "MetaData
+    //
+    options1	{ pack
+string_ , i8  Header
+    ,
+    float64 o , }
+    root packet
+    u8x{
+// " ++ [27880; 37322]%N ++ runes_of_ascii "
+// a // b
+}")).
+Eval vm_compute in ("<<<M2302>>>" ++ check (runes_of_ascii "options
+    {
+x_y_z// " ++ [27880; 37322]%N ++ runes_of_ascii "
+= 10 ; }
+packet body {
+    @calculatedFrom(
+// trailing space 
+// " ++ [27880; 37322]%N ++ runes_of_ascii "
+""1""
+)	match T as Foo
+    {")).
+Eval vm_compute in ("<<<M4214>>>" ++ check (runes_of_ascii "
+// " ++ [128512]%N ++ runes_of_ascii " emoji
+options // c
+  {repeatCount=
+    '\x00' } 
+
+// 50% %s
+  	// packet A { u8 x, }
+  MetaData
+uint8x
+
+{ }
+")).
+Eval vm_compute in ("<<<M1913>>>" ++ check (runes_of_ascii "packet o {
+    roots `it's`
+// trailing space 
+//x
+, char[ 42
+    ]  A, // " ++ [27880; 37322]%N ++ runes_of_ascii "
+f64
+" ++ [233]%N ++ runes_of_ascii "repeatCount
+    `crlf
+line`
+,}")).
+Eval vm_compute in ("<<<M2297>>>" ++ check (runes_of_ascii "options
+    {
+x_y_z// " ++ [27880; 37322]%N ++ runes_of_ascii "
+= 10 ; }
+packet body {
+    @calculatedFrom(
+// trailing space 
+// " ++ [27880; 37322]%N ++ runes_of_ascii "
+""1""
+)	match T as Foo")).
+Eval vm_compute in ("<<<M2988>>>" ++ check (runes_of_ascii "packet A {
+  match k as n {
+    [""a"", ""bb"", ""c c"", ""d"", ""e"", ""f"", ""g"", ""h"", ""i"", ""j"", ""k""] : B,
+    2 : C
+  },
+}")).
+Eval vm_compute in ("<<<M27>>>" ++ check (runes_of_ascii "MetaData charz
+/// triple
+// 50% %s
+{
+u32 metadata , }
+root packet u{ @tag( 42 )
+    repeat uint8
+Foo , }
+")).
+Eval vm_compute in ("<<<M1890>>>" ++ check (runes_of_ascii "packet o {
+    roots `it's`
+// trailing space 
+//x
+, char[ 42
+    ]  A, // " ++ [27880; 37322]%N ++ runes_of_ascii "
+f64
+'0'
+    `crlf
+line`
+,}")).
+Eval vm_compute in ("<<<M4268>>>" ++ check (runes_of_ascii "options {
+    LittleEndian = true;
+}
+
+root packet P {
+    u16 a,
+    u32 Sum @calculatedFrom(""CRC32""),
+}")).
+Eval vm_compute in ("<<<M3603>>>" ++ check (runes_of_ascii "
+MetaData
+
+Foo{zchar[ 
+// c
+0
+]
+matchKey ,
+}
+
+    options { 
+lengthOf =
+
+i32
+u=
+00
+
+    ; }
+")).
+Eval vm_compute in ("<<<M1414>>>" ++ check (runes_of_ascii "packet packet
+T
+{ match repeatCount as	calculatedFrom
+{ [65535 ]	: As	,
+} ,}
+// trailing space 
+")).
+Eval vm_compute in ("<<<M1494>>>" ++ check (runes_of_ascii "packet
+T
+{ match repeatCount as	calculatedFrom
+{ [65535 ]	: As	,
+} ,repeat
+// trailing space 
+")).
+Eval vm_compute in ("<<<M1501>>>" ++ check (runes_of_ascii "packet
+T
+{ match repeatCount as	calculatedFrom
+{ [65535 ]	: '' As	,
+} ,}
+// trailing space 
+")).
+Eval vm_compute in ("<<<M1505>>>" ++ check (runes_of_ascii "packet
+T
+{ match repeatCount as	calculatedFrom
+{ \ [65535 ]	: As	,
+} ,}
+// trailing space 
+")).
+Eval vm_compute in ("<<<M4258>>>" ++ check (runes_of_ascii "packet A {
+    u32 crc @calculatedFrom(""\
+    ""),
+    @calculatedFrom(""\
+    "")
+    u8 y,
+}")).
+Eval vm_compute in ("<<<M2968>>>" ++ check (runes_of_ascii "packet A {
+  match k as n {
+    [1, 22, ""c c"", 4, 5, ""f"", 7, 8, ""i""] : B,
+    2 : C
+  },
+}")).
+Eval vm_compute in ("<<<M1472>>>" ++ check (runes_of_ascii "packet
+T
+{ match repeatCount as	calculatedFrom
+{ [65535 ]	: 	,
+} ,}
+// trailing space 
+")).
+Eval vm_compute in ("<<<M1217>>>" ++ check (runes_of_ascii "
+options{ BodyLength =  true
+    /// triple
+    chars
+    =
+    ""it's"" ;float=	'\x00'}")).
+Eval vm_compute in ("<<<M1717>>>" ++ check (runes_of_ascii "options lengthOf  { =//x
+i16;
+    BodyLength = 0 ; pack
+= false;
+    A = char[ 3 ] }")).
+Eval vm_compute in ("<<<M1767>>>" ++ check (runes_of_ascii "options{  lengthOf =//x
+i16;
+    BodyLength = 0 ; pack
+false =;
+    A = char[ 3 ] }")).
+Eval vm_compute in ("<<<M1805>>>" ++ check (runes_of_ascii "options{  lengthOf =//x
+i16;
+    BodyLength = 0 ; pack
+= false;
+    A = char[ 3 ] ")).
+Eval vm_compute in ("<<<M2943>>>" ++ check (runes_of_ascii "packet A {
+  match k as n {
+    [1, 22, ""c c"", 4, 5, ""f"", 7] : B
+    2 : C
+  },
+}")).
+Eval vm_compute in ("<<<M1906>>>" ++ check (runes_of_ascii "packet o {
+    roots `it's`
+// trailing space 
+//x
+, char[ 42
+    ]  A, // " ++ [27880; 37322]%N ++ runes_of_ascii "
+f")).
+Eval vm_compute in ("<<<M3270>>>" ++ check (runes_of_ascii "MetaData Foo { zchar[ 0 ] matchKey , } options { lengthOf =
+// c
+i32 u = 00 ; }")).
+Eval vm_compute in ("<<<M3557>>>" ++ check (runes_of_ascii "packet a1 {
+    /// triple
+    string_ @lengthOf(As) `
+        `,// " ++ [128512]%N ++ runes_of_ascii " emoji
+}")).
+Eval vm_compute in ("<<<M2906>>>" ++ check (runes_of_ascii "packet A {
+  match k as n {
+    [""a"", ""bb"", 007, ""d""] : B
+    2 : C
+  },
+}")).
+Eval vm_compute in ("<<<M4118>>>" ++ check (runes_of_ascii "options {
+    x_y_z = false
+    Logon = ""packet"";// packet A { u8 x, }
+}")).
+Eval vm_compute in ("<<<M943>>>" ++ check (runes_of_ascii "
+MetaData	roots
+    {uint8x trueish
+,//
+u32
+    len ,} // @lengthOf(")).
+Eval vm_compute in ("<<<M1876>>>" ++ check (runes_of_ascii "packet o {
+    roots `it's`
+// trailing space 
+//x
+, char[ 42
+    ]")).
+Eval vm_compute in ("<<<M1381>>>" ++ check (runes_of_ascii "options {
+msg_type =
+""abc"" ; tag = f64
+BodyLength = '\x00'; } 	 ")).
+Eval vm_compute in ("<<<M2879>>>" ++ check (runes_of_ascii "packet A {
+  match k as n {
+    [""a"", 22] : B,
+    2 : C
+  },
+}")).
+Eval vm_compute in ("<<<M3294>>>" ++ check (runes_of_ascii "packet u8x
+// c
+{ } MetaData crc { char[ 4294967296 ] Foo , }")).
+Eval vm_compute in ("<<<M2839>>>" ++ check (runes_of_ascii "'0' `doc` char[ ) string @leftPad , char[] string root @tag(")).
+Eval vm_compute in ("<<<M1985>>>" ++ check (runes_of_ascii "
+packet leftPad {
+@leftPad( '0')
+u32
+i64_ `100% of %d` ,")).
+Eval vm_compute in ("<<<M664>>>" ++ check (runes_of_ascii "
+packet
+x_y_z { body { // " ++ [128512]%N ++ runes_of_ascii " emoji
+_x BodyLength
+,} , }")).
+Eval vm_compute in ("<<<M3893>>>" ++ check (runes_of_ascii "  // c
+	MetaData crc	// `tick` ""quote"" 'q'
+
+{
+    }
+")).
+Eval vm_compute in ("<<<M1368>>>" ++ check (runes_of_ascii "MetaData
+    calculatedFrom{
+    string Header,}
+")).
+Eval vm_compute in ("<<<M3743>>>" ++ check (runes_of_ascii "packet A {match k
+as
+n
+	{ [""a""] : B
+2:C
+	} ,
+	}")).
+Eval vm_compute in ("<<<M243>>>" ++ check (runes_of_ascii "MetaData _x{ }
+options{ //	t
+A
+    = """ ++ [28040; 24687]%N ++ runes_of_ascii """; }")).
+Eval vm_compute in ("<<<M13>>>" ++ check (runes_of_ascii "options
+{ matchKey= ""x y"";len =
+'\x00' }
+")).
+Eval vm_compute in ("<<<M1302>>>" ++ check (runes_of_ascii "options	{
+pack
+= zchar[ 255]// 50% %s
+}
+")).
+Eval vm_compute in ("<<<M3224>>>" ++ check (runes_of_ascii "root packet
+// c
+u128 { chars `doc` , }")).
+Eval vm_compute in ("<<<M4072>>>" ++ check (runes_of_ascii "
+
+  packet
+
+    A
+{ u8 x `a
+
+b` ,}
+")).
+Eval vm_compute in ("<<<M2373>>>" ++ check (runes_of_ascii "MetaData
+Foo {Header //
+@tag( ,	} 	 ")).
+Eval vm_compute in ("<<<M2372>>>" ++ check (runes_of_ascii "MetaData
+Foo {Header //
+, pack	} 	 ")).
+Eval vm_compute in ("<<<M3023>>>" ++ check (runes_of_ascii "root packet A {
+    u8 x `a
+b`,
+}")).
+Eval vm_compute in ("<<<M2573>>>" ++ check (runes_of_ascii "packet A { repeat repeat u8 x, }")).
+Eval vm_compute in ("<<<M2855>>>" ++ check ([65533; 8; 8]%N ++ runes_of_ascii "g%" ++ [65533]%N ++ runes_of_ascii "g3=" ++ [65533; 25; 65533]%N ++ runes_of_ascii "+8" ++ [65533]%N ++ runes_of_ascii "`" ++ [65533]%N ++ runes_of_ascii "u" ++ [65533]%N ++ runes_of_ascii ">" ++ [65533]%N ++ runes_of_ascii "8" ++ [27; 65533; 65533; 2]%N ++ runes_of_ascii "+" ++ [65533]%N ++ runes_of_ascii "q" ++ [30]%N ++ runes_of_ascii "~")).
+Eval vm_compute in ("<<<M3164>>>" ++ check (runes_of_ascii "packet A {
+ u8 x `d" ++ [8203]%N ++ runes_of_ascii "`, // c" ++ [8203]%N ++ runes_of_ascii "
+}")).
+Eval vm_compute in ("<<<M2597>>>" ++ check (runes_of_ascii "packet A { x @lengthOf(3), }")).
+Eval vm_compute in ("<<<M2650>>>" ++ check (runes_of_ascii "packet A { } x packet B { }")).
+Eval vm_compute in ("<<<M3930>>>" ++ check (runes_of_ascii "
+// c" ++ [5760]%N ++ runes_of_ascii "
+		packet
+A { }
+")).
+Eval vm_compute in ("<<<M3693>>>" ++ check (runes_of_ascii "
+// `tick` ""quote"" 'q'
+")).
+Eval vm_compute in ("<<<M2571>>>" ++ check (runes_of_ascii "packet A { repeat u8 }")).
+Eval vm_compute in ("<<<M87>>>" ++ check (runes_of_ascii "MetaData uint8x { }
+")).
+Eval vm_compute in ("<<<M2647>>>" ++ check (runes_of_ascii "root MetaData M { }")).
+Eval vm_compute in ("<<<M3102>>>" ++ check (runes_of_ascii "packet A {
+}
+// c" ++ [160]%N)).
+Eval vm_compute in ("<<<M4103>>>" ++ check (runes_of_ascii "  packet
+
+A 
+{
+} ")).
+Eval vm_compute in ("<<<M3150>>>" ++ check (runes_of_ascii "packet A {
+}// c" ++ [12]%N)).
+Eval vm_compute in ("<<<M2189>>>" ++ check (runes_of_ascii "MetaData BodyLe")).
+Eval vm_compute in ("<<<M2711>>>" ++ check (runes_of_ascii "kg#jzm5RrM-F/")).
+Eval vm_compute in ("<<<M678>>>" ++ check (runes_of_ascii "//x
+
+// c
+")).
+Eval vm_compute in ("<<<M1841>>>" ++ check (runes_of_ascii "packet o")).
+Eval vm_compute in ("<<<M1421>>>" ++ check (runes_of_ascii "packet")).
+Eval vm_compute in ("<<<M2458>>>" ++ check (runes_of_ascii "false")).
+Eval vm_compute in ("<<<M3171>>>" ++ check (runes_of_ascii "// c" ++ [6158]%N)).
+Eval vm_compute in ("<<<M1124>>>" ++ check (runes_of_ascii "
+
+
+")).
+Eval vm_compute in ("<<<M3629>>>" ++ check (runes_of_ascii "//x")).
+Eval vm_compute in ("<<<M2542>>>" ++ check (runes_of_ascii "_")).
